@@ -59,6 +59,33 @@
 //! asset's IBC denom / a prefix of it / the IBC voucher; 5 = three IBC vouchers in ascending order (also in
 //! `--variant many`).  A switch of the distribution asset makes the other shapes the distribution asset.
 //!
+//! MAGNITUDES.  Every funded sender holds 2^124 of every asset (total supply < 2^127: the mock bank's u128 balances
+//! never overflow).  `init … pliq=<a,b,…> vliq=<a,b,…>` = liquidity of every pair (each side) / vault, 10^12 in one
+//! world in three, else 2^24 … 2^118 (within a few bits of each other, all huge, or a mix).  Swap / loan / gift /
+//! stray-coin amounts come from the whole range: log-uniform up to 2^120, scripted values around 2^64, 3.4e20
+//! (= u128::MAX / 10^18, where an 18-decimals `Decimal` stops holding integers), 1e21, 1e27, 2^96, 2^100, 2^119, and
+//! amounts relative to the liquidity they meet; 2 rounds in 5 the collector is handed such an amount of the current
+//! distribution asset right before NewEpoch (take rate, transfer and epoch total at scale).  A `NewEpoch` / direct
+//! `AggregateFees` that fails INSIDE THE ROUTER'S SWAP EXECUTION (spread above the collector's 50 % cap, swaps
+//! disabled, overflow in a pair — reserves are not modelled) records `@xfail=err|panic`: the model then fails iff it
+//! sends a swap message at all.
+//!
+//! HOSTILE REGISTERED CONTRACTS AND RE-ENTRANCY.  `pools=…,0.1h` / `vaults=…,0h` (trailing `h`) = that pair / vault is
+//! the hostile contract of `mod hostile`, instantiated BY THE REAL FACTORY (`pair_code_id` / `vault_id` pointed at its
+//! code for the one `CreatePair` / `CreateVault`): listed by `Pairs` / `Vaults`, found by the router, called by the
+//! collector and the router like any pair / vault.  `nusers=6` adds bonder `u5`, the hostile contract's helper (a
+//! contract that sends what it is told to from its own address; the engine also bonds / claims as `u5` through it).
+//! `reenter <h> <t> <sender> <trig> <plain|catch> <inner op> [args] -- <outer op> [args]`: the hostile contract is
+//! armed, then `<outer op>` (`newepoch` | `collect …` | `aggregate …`) is sent by `<sender>`; when the collector /
+//! router calls the armed entry point (`p<k>` / `v<k>` = CollectProtocolFees of hostile pair / vault k, `s<k>` = Swap
+//! of hostile pair k) the hostile contract sends `<inner op>` (`newepoch claim fwd collect aggregate bond unbond grace
+//! distasset`, from `u5`) ONCE, plainly or as a sub-message it catches.  Recorded: the outer op's `@outs @acc`, the
+//! nested op's `@ish @ir @iv @iouts @iacc @ixfail`, and `@hacc=<stage>.<asset>.<pair>.<side>.<pre>:<fee>` (the outer
+//! op's accruals per swap; pre = 1: by a hop before the hostile pair fired).  The observation line of a `reenter` op
+//! ends in `fired=0|1|2|-` (not triggered / nested message went through / refused and caught / transaction failed).
+//! A transaction whose nested message went through is judged as the sequence of plain ops it amounts to (see `run`);
+//! `conservation_across_transaction` (C10) is evaluated on the real bank balances of every collecting transaction.
+//!
 //! C07 monitors (`collect_*`): a direct or pipeline collection moves exactly the pending fees above the
 //! thresholds from each pair / vault to the collector, pair reserves and vault share backing unchanged
 //! (reserves move only by what the aggregation swaps of the same transaction traded), and nothing of what
@@ -95,23 +122,356 @@ const DAY: u64 = 86_400_000_000_000;
 const T0: u64 = 1_600_000_000_000_000_000;
 const E18: u128 = 1_000_000_000_000_000_000;
 const THRESH: u128 = 1000;
+/// what each funded sender holds of every asset
+const BIG: u128 = 1u128 << 124;
+/// the largest integer `Decimal::from_atomics(x, 0)` accepts: u128::MAX / 10^18 = 340282366920938463463 (3.4e20)
+const DEC_INT_MAX: u128 = u128::MAX / E18;
+
+/// an amount from the WHOLE range the contracts' u128 arithmetic has to cope with: log-uniform up to 2^120, or a
+/// scripted value around 2^64, 3.4e20 (where an 18-decimals `Decimal` stops holding integers), 1e21, 1e27,
+/// 2^96, 2^100, 2^119
+fn wide_amount(rng: &mut Rng) -> u128 {
+    if rng.chance(2, 5) {
+        let base = *rng.pick(&[
+            1u128 << 64,
+            DEC_INT_MAX,
+            DEC_INT_MAX,
+            340_000_000_000_000_000_000,
+            10u128.pow(21),
+            10u128.pow(27),
+            1u128 << 96,
+            1u128 << 100,
+            1u128 << 119,
+        ]);
+        match rng.below(6) {
+            0 => base - 1,
+            1 => base,
+            2 => base + 1,
+            3 => base + 1 + rng.below(1_000_000) as u128,
+            4 => base - 1 - rng.below(1_000_000) as u128,
+            _ => base / 10 * (10 + rng.below(10) as u128),
+        }
+    } else {
+        rng.log_uniform(120)
+    }
+}
 
 #[derive(Debug, Deserialize, Clone, Serialize)]
 #[serde(rename_all = "snake_case")]
 pub enum AdvMsg {
     Run { msgs: Vec<CosmosMsg> },
+    /// dry run: executes the messages, then FAILS with `probe:ok` / `probe:err` in the error text (nothing persists)
+    Probe { msgs: Vec<CosmosMsg> },
+    /// dry run that keeps the error chain: executes the messages plainly, then fails (`dryrun:end`); if one of the
+    /// messages fails, the transaction's error is that message's whole chain
+    DryRun { msgs: Vec<CosmosMsg> },
+    Fail {},
 }
 
 fn adv_contract() -> Box<dyn cw_multi_test::Contract<Empty>> {
-    Box::new(ContractWrapper::new(
-        |_d, _e, _i, msg: AdvMsg| -> Result<Response, StdError> {
-            match msg {
-                AdvMsg::Run { msgs } => Ok(Response::new().add_messages(msgs)),
-            }
+    Box::new(
+        ContractWrapper::new(
+            |_d, env: cosmwasm_std::Env, _i, msg: AdvMsg| -> Result<Response, StdError> {
+                match msg {
+                    AdvMsg::Run { msgs } => Ok(Response::new().add_messages(msgs)),
+                    AdvMsg::DryRun { msgs } => Ok(Response::new().add_messages(msgs).add_message(WasmMsg::Execute {
+                        contract_addr: env.contract.address.to_string(),
+                        msg: to_json_binary(&AdvMsg::Fail {})?,
+                        funds: vec![],
+                    })),
+                    AdvMsg::Fail {} => Err(StdError::generic_err("dryrun:end")),
+                    AdvMsg::Probe { msgs } => {
+                        let n = msgs.len();
+                        let mut subs: Vec<cosmwasm_std::SubMsg> = msgs.into_iter().map(|m| cosmwasm_std::SubMsg::reply_on_error(m, 7)).collect();
+                        if let Some(last) = subs.pop() {
+                            subs.push(cosmwasm_std::SubMsg::reply_always(last.msg, 7));
+                        }
+                        let _ = n;
+                        Ok(Response::new().add_submessages(subs))
+                    }
+                }
+            },
+            |_d, _e, _i, _m: Empty| -> Result<Response, StdError> { Ok(Response::new()) },
+            |_d, _e, _m: Empty| -> Result<Binary, StdError> { Err(StdError::generic_err("no")) },
+        )
+        .with_reply(|_d, _e, r: cosmwasm_std::Reply| -> Result<Response, StdError> {
+            Err(StdError::generic_err(match r.result {
+                cosmwasm_std::SubMsgResult::Ok(_) => "probe:ok",
+                cosmwasm_std::SubMsgResult::Err(_) => "probe:err",
+            }))
+        }),
+    )
+}
+
+/// THE HOSTILE REGISTERED CONTRACT.  A contract that can be instantiated by the REAL pool factory (`CreatePair` after
+/// the factory's owner pointed `pair_code_id` at its code: it accepts the pair `InstantiateMsg` and answers the
+/// `Pair {}` query the factory's reply makes) and by the REAL vault factory (`CreateVault` after `vault_id` was
+/// pointed at it: it accepts the vault `InstantiateMsg`; the factory's reply only reads the new address), so it is
+/// listed by `Pairs` / `Vaults`, found by the router's `Pair { asset_infos }` lookup, and called by the fee
+/// collector (`CollectProtocolFees`) and by the router (`Swap`, `Simulation`) like any pair / vault.  It holds no
+/// fees (`ProtocolFees` = 0), pays swaps 1:1 out of its own pocket, obeys `UpdateConfig { feature_toggle }` — and,
+/// when ARMED, sends one message of its own (through its helper contract, the `agent`) the next time the armed
+/// entry point (`collect` = `CollectProtocolFees`, `swap` = `Swap`) is called: plainly (a failure of the nested
+/// message fails the caller's transaction) or as a sub-message with `reply_on: Always` (it swallows the failure).
+/// Whether it fired and what became of the nested message is kept in its storage (`Report {}`) and marked in the
+/// transaction's events (`hostile_fire` … `hostile_inner_done`).
+mod hostile {
+    use super::AdvMsg;
+    use cosmwasm_std::{
+        to_json_binary, Addr, BankMsg, Binary, Coin, CosmosMsg, Decimal, Deps, DepsMut, Empty, Env, MessageInfo, Reply,
+        Response, StdError, StdResult, SubMsg, Uint128, WasmMsg,
+    };
+    use cw_multi_test::{Contract, ContractWrapper};
+    use cw_storage_plus::Item;
+    use serde::{Deserialize, Serialize};
+    use white_whale_std::fee::{Fee, VaultFee};
+    use white_whale_std::pool_network::asset::{Asset, AssetInfo, PairInfo, PairType};
+    use white_whale_std::pool_network::pair as p;
+    use white_whale_std::vault_network::vault as v;
+
+    #[derive(Serialize, Deserialize, Clone, Debug, PartialEq)]
+    pub enum Role {
+        Pair([AssetInfo; 2]),
+        Vault(AssetInfo),
+    }
+    #[derive(Serialize, Deserialize, Clone, Debug)]
+    pub struct Arm {
+        /// `collect` | `swap`
+        pub trigger: String,
+        pub agent: String,
+        pub msgs: Vec<CosmosMsg>,
+        pub catch: bool,
+    }
+    #[derive(Serialize, Deserialize, Clone, Debug, Default)]
+    pub struct Report {
+        pub fired: bool,
+        pub inner_ok: Option<bool>,
+        pub inner_err: String,
+    }
+    const ROLE: Item<Role> = Item::new("role");
+    const OWNER: Item<Addr> = Item::new("owner");
+    const ARM: Item<Arm> = Item::new("arm");
+    const REPORT: Item<Report> = Item::new("report");
+    const SWAPS_ON: Item<bool> = Item::new("swaps_on");
+
+    /// the pair's and the vault's `InstantiateMsg` both parse as this (unknown fields are ignored)
+    #[derive(Serialize, Deserialize, Clone, Debug)]
+    pub struct InstantiateMsg {
+        #[serde(default)]
+        pub asset_infos: Option<[AssetInfo; 2]>,
+        #[serde(default)]
+        pub asset_info: Option<AssetInfo>,
+    }
+
+    #[derive(Serialize, Deserialize, Clone, Debug)]
+    #[serde(rename_all = "snake_case")]
+    pub enum ExecuteMsg {
+        CollectProtocolFees {},
+        Swap {
+            offer_asset: Asset,
+            #[serde(default)]
+            belief_price: Option<Decimal>,
+            #[serde(default)]
+            max_spread: Option<Decimal>,
+            #[serde(default)]
+            to: Option<String>,
         },
-        |_d, _e, _i, _m: Empty| -> Result<Response, StdError> { Ok(Response::new()) },
-        |_d, _e, _m: Empty| -> Result<Binary, StdError> { Err(StdError::generic_err("no")) },
-    ))
+        UpdateConfig {
+            #[serde(default)]
+            feature_toggle: Option<p::FeatureToggle>,
+        },
+        Arm(Arm),
+        Disarm {},
+    }
+
+    #[derive(Serialize, Deserialize, Clone, Debug)]
+    #[serde(rename_all = "snake_case")]
+    pub enum QueryMsg {
+        Pair {},
+        Pool {},
+        Config {},
+        ProtocolFees {
+            #[serde(default)]
+            asset_id: Option<String>,
+            #[serde(default)]
+            all_time: Option<bool>,
+        },
+        Simulation { offer_asset: Asset },
+        Report {},
+    }
+
+    fn instantiate(deps: DepsMut, _env: Env, info: MessageInfo, msg: InstantiateMsg) -> StdResult<Response> {
+        let role = match (msg.asset_infos, msg.asset_info) {
+            (Some(a), _) => Role::Pair(a),
+            (None, Some(a)) => Role::Vault(a),
+            _ => return Err(StdError::generic_err("hostile: neither a pair nor a vault instantiate message")),
+        };
+        ROLE.save(deps.storage, &role)?;
+        OWNER.save(deps.storage, &info.sender)?;
+        SWAPS_ON.save(deps.storage, &true)?;
+        REPORT.save(deps.storage, &Report::default())?;
+        Ok(Response::new().add_attribute("action", "instantiate"))
+    }
+
+    /// the armed entry point is being called: send the nested message(s) once, through the agent
+    fn fire(deps: DepsMut, trigger: &str) -> StdResult<(Vec<SubMsg>, Vec<(String, String)>)> {
+        let Some(arm) = ARM.may_load(deps.storage)? else { return Ok((vec![], vec![])) };
+        if arm.trigger != trigger {
+            return Ok((vec![], vec![]));
+        }
+        ARM.remove(deps.storage);
+        REPORT.save(deps.storage, &Report { fired: true, inner_ok: None, inner_err: String::new() })?;
+        let inner = WasmMsg::Execute {
+            contract_addr: arm.agent,
+            msg: to_json_binary(&AdvMsg::Run { msgs: arm.msgs })?,
+            funds: vec![],
+        };
+        let sub = if arm.catch { SubMsg::reply_always(inner, 1) } else { SubMsg::reply_on_success(inner, 1) };
+        Ok((vec![sub], vec![("hostile".to_string(), "fire".to_string())]))
+    }
+
+    fn execute(deps: DepsMut, env: Env, info: MessageInfo, msg: ExecuteMsg) -> StdResult<Response> {
+        match msg {
+            ExecuteMsg::CollectProtocolFees {} => {
+                let (subs, attrs) = fire(deps, "collect")?;
+                Ok(Response::new().add_attribute("action", "collect_protocol_fees").add_attributes(attrs).add_submessages(subs))
+            }
+            ExecuteMsg::Swap { offer_asset, to, .. } => {
+                let Role::Pair(infos) = ROLE.load(deps.storage)? else { return Err(StdError::generic_err("hostile: no pair")) };
+                if !SWAPS_ON.load(deps.storage)? {
+                    return Err(StdError::generic_err("Operation disabled, swap"));
+                }
+                let ask = if offer_asset.info == infos[0] {
+                    infos[1].clone()
+                } else if offer_asset.info == infos[1] {
+                    infos[0].clone()
+                } else {
+                    return Err(StdError::generic_err("hostile: asset mismatch"));
+                };
+                let (AssetInfo::NativeToken { denom: offer_denom }, AssetInfo::NativeToken { denom: ask_denom }) = (offer_asset.info.clone(), ask) else {
+                    return Err(StdError::generic_err("hostile: native assets only"));
+                };
+                // the offer must be attached
+                if !info.funds.iter().any(|c| c.denom == offer_denom && c.amount == offer_asset.amount) {
+                    return Err(StdError::generic_err("hostile: funds mismatch"));
+                }
+                let receiver = to.unwrap_or_else(|| info.sender.to_string());
+                let (subs, attrs) = fire(deps, "swap")?;
+                // 1 : 1, no fees; first the nested message, then the payout
+                Ok(Response::new()
+                    .add_attributes(vec![
+                        ("action", "swap".to_string()),
+                        ("sender", info.sender.to_string()),
+                        ("receiver", receiver.clone()),
+                        ("offer_asset", offer_denom),
+                        ("ask_asset", ask_denom.clone()),
+                        ("offer_amount", offer_asset.amount.to_string()),
+                        ("return_amount", offer_asset.amount.to_string()),
+                        ("spread_amount", "0".to_string()),
+                        ("swap_fee_amount", "0".to_string()),
+                        ("protocol_fee_amount", "0".to_string()),
+                        ("burn_fee_amount", "0".to_string()),
+                    ])
+                    .add_attributes(attrs)
+                    .add_submessages(subs)
+                    .add_message(BankMsg::Send { to_address: receiver, amount: vec![Coin { denom: ask_denom, amount: offer_asset.amount }] }))
+            }
+            ExecuteMsg::UpdateConfig { feature_toggle } => {
+                if info.sender != OWNER.load(deps.storage)? {
+                    return Err(StdError::generic_err("Unauthorized"));
+                }
+                if let Some(t) = feature_toggle {
+                    SWAPS_ON.save(deps.storage, &t.swaps_enabled)?;
+                }
+                Ok(Response::new().add_attribute("action", "update_config"))
+            }
+            ExecuteMsg::Arm(arm) => {
+                ARM.save(deps.storage, &arm)?;
+                REPORT.save(deps.storage, &Report::default())?;
+                Ok(Response::new())
+            }
+            ExecuteMsg::Disarm {} => {
+                ARM.remove(deps.storage);
+                let _ = env;
+                Ok(Response::new())
+            }
+        }
+    }
+
+    fn reply(deps: DepsMut, _env: Env, msg: Reply) -> StdResult<Response> {
+        let mut r = REPORT.may_load(deps.storage)?.unwrap_or_default();
+        match msg.result {
+            cosmwasm_std::SubMsgResult::Ok(_) => r.inner_ok = Some(true),
+            cosmwasm_std::SubMsgResult::Err(e) => {
+                r.inner_ok = Some(false);
+                r.inner_err = e;
+            }
+        }
+        REPORT.save(deps.storage, &r)?;
+        Ok(Response::new().add_attribute("hostile", "inner_done"))
+    }
+
+    fn query(deps: Deps, env: Env, msg: QueryMsg) -> StdResult<Binary> {
+        let role = ROLE.load(deps.storage)?;
+        let zero_fee = || Fee { share: Decimal::zero() };
+        match (msg, role) {
+            (QueryMsg::Report {}, _) => to_json_binary(&REPORT.may_load(deps.storage)?.unwrap_or_default()),
+            (QueryMsg::Pair {}, Role::Pair(infos)) => to_json_binary(&PairInfo {
+                asset_infos: infos,
+                contract_addr: env.contract.address.to_string(),
+                liquidity_token: AssetInfo::NativeToken { denom: "hostilelp".to_string() },
+                asset_decimals: [6, 6],
+                pair_type: PairType::ConstantProduct,
+            }),
+            (QueryMsg::Pool {}, Role::Pair(infos)) => {
+                let mut assets = vec![];
+                for i in infos.iter() {
+                    let AssetInfo::NativeToken { denom } = i else { return Err(StdError::generic_err("hostile: native only")) };
+                    let b = deps.querier.query_balance(&env.contract.address, denom)?;
+                    assets.push(Asset { info: i.clone(), amount: b.amount });
+                }
+                to_json_binary(&p::PoolResponse { assets, total_share: Uint128::zero() })
+            }
+            (QueryMsg::Config {}, Role::Pair(_)) => to_json_binary(&p::Config {
+                owner: OWNER.load(deps.storage)?,
+                fee_collector_addr: env.contract.address.clone(),
+                pool_fees: p::PoolFee { protocol_fee: zero_fee(), swap_fee: zero_fee(), burn_fee: zero_fee() },
+                feature_toggle: p::FeatureToggle {
+                    withdrawals_enabled: true,
+                    deposits_enabled: true,
+                    swaps_enabled: SWAPS_ON.load(deps.storage)?,
+                },
+            }),
+            (QueryMsg::ProtocolFees { .. }, Role::Pair(infos)) => to_json_binary(&p::ProtocolFeesResponse {
+                fees: infos.iter().map(|i| Asset { info: i.clone(), amount: Uint128::zero() }).collect(),
+            }),
+            (QueryMsg::Simulation { offer_asset }, Role::Pair(_)) => to_json_binary(&p::SimulationResponse {
+                return_amount: offer_asset.amount,
+                spread_amount: Uint128::zero(),
+                swap_fee_amount: Uint128::zero(),
+                protocol_fee_amount: Uint128::zero(),
+                burn_fee_amount: Uint128::zero(),
+            }),
+            (QueryMsg::Config {}, Role::Vault(info)) => to_json_binary(&v::Config {
+                owner: OWNER.load(deps.storage)?,
+                asset_info: info,
+                flash_loan_enabled: false,
+                deposit_enabled: false,
+                withdraw_enabled: false,
+                lp_asset: AssetInfo::NativeToken { denom: "hostilelp".to_string() },
+                fee_collector_addr: env.contract.address.clone(),
+                fees: VaultFee { protocol_fee: zero_fee(), flash_loan_fee: zero_fee(), burn_fee: zero_fee() },
+            }),
+            (QueryMsg::ProtocolFees { .. }, Role::Vault(info)) => {
+                to_json_binary(&v::ProtocolFeesResponse { fees: Asset { info, amount: Uint128::zero() } })
+            }
+            _ => Err(StdError::generic_err("hostile: query not answered in this role")),
+        }
+    }
+
+    pub fn contract() -> Box<dyn Contract<Empty>> {
+        Box::new(ContractWrapper::new(execute, instantiate, query).with_reply(reply))
+    }
 }
 
 fn nat(d: &str) -> AssetInfo {
@@ -170,6 +530,14 @@ impl Amt {
         match v {
             [] => Amt::Empty,
             [a] if a.info == nat(d0) => Amt::One(a.amount.u128()),
+            _ => Amt::Other,
+        }
+    }
+    /// the same view of a ledger given per asset index
+    fn of_led(l: &Led) -> Amt {
+        match l.as_slice() {
+            [] => Amt::Empty,
+            [(k, x)] if *k == DIST => Amt::One(*x),
             _ => Amt::Other,
         }
     }
@@ -358,6 +726,13 @@ struct World {
     /// and the coverage counters only
     pool_order: Vec<usize>,
     vault_order: Vec<usize>,
+    /// initial liquidity of every pair (each side) / vault, for the generator only
+    pool_liq: Vec<u128>,
+    vault_liq: Vec<u128>,
+    /// which pairs / vaults are the hostile contract; its helper (bonder `u5`)
+    pool_hostile: Vec<bool>,
+    vault_hostile: Vec<bool>,
+    agent: Option<Addr>,
     // monitor bookkeeping (independent of the model)
     expired: BTreeSet<u64>,
     rolled: BTreeSet<(u64, usize)>,
@@ -390,19 +765,28 @@ impl World {
         let pf = getl("pf", &[10, 10, 10]);
         let vfee = getl("vf", &[10, 10, 10]);
         // pairs `a.b` and vault assets in creation order; asset indices >= 3 are the filler denoms
-        let pool_assets: Vec<(usize, usize)> = kv
-            .get("pools")
-            .map(|v| {
-                v.split(',')
-                    .filter_map(|t| t.split_once('.'))
-                    .filter_map(|(a, b)| Some((a.parse::<usize>().ok()?, b.parse::<usize>().ok()?)))
-                    .collect()
-            })
-            .unwrap_or_else(|| POOLS.to_vec());
-        let vault_assets: Vec<usize> = kv
-            .get("vaults")
-            .map(|v| v.split(',').filter_map(|x| x.parse::<usize>().ok()).collect())
-            .unwrap_or_else(|| VAULTS.to_vec());
+        // (a trailing `h` = the pair / vault is the HOSTILE contract, instantiated by the real factory)
+        let pool_toks: Vec<String> = kv.get("pools").map(|v| v.split(',').map(|t| t.to_string()).collect()).unwrap_or_default();
+        let pool_assets: Vec<(usize, usize)> = if pool_toks.is_empty() {
+            POOLS.to_vec()
+        } else {
+            pool_toks
+                .iter()
+                .filter_map(|t| t.trim_end_matches('h').split_once('.'))
+                .filter_map(|(a, b)| Some((a.parse::<usize>().ok()?, b.parse::<usize>().ok()?)))
+                .collect()
+        };
+        let pool_hostile: Vec<bool> = (0..pool_assets.len()).map(|i| pool_toks.get(i).map(|t| t.ends_with('h')).unwrap_or(false)).collect();
+        let vault_toks: Vec<String> = kv.get("vaults").map(|v| v.split(',').map(|t| t.to_string()).collect()).unwrap_or_default();
+        let vault_assets: Vec<usize> = if vault_toks.is_empty() {
+            VAULTS.to_vec()
+        } else {
+            vault_toks.iter().filter_map(|x| x.trim_end_matches('h').parse::<usize>().ok()).collect()
+        };
+        let vault_hostile: Vec<bool> = (0..vault_assets.len()).map(|i| vault_toks.get(i).map(|t| t.ends_with('h')).unwrap_or(false)).collect();
+        // `nusers=6`: the sixth "bonder" `u5` is the hostile contract's helper (the agent): a contract that sends
+        // whatever it is told to, from its own address and balance
+        let nusers = getn("nusers", NUSERS as u64) as usize;
         let nassets = pool_assets
             .iter()
             .flat_map(|(a, b)| [*a, *b])
@@ -424,19 +808,30 @@ impl World {
         assert!(assets.iter().collect::<BTreeSet<_>>().len() == assets.len(), "asset denoms must be distinct");
         let growth = kv.get("growth").and_then(|s| s.parse::<u128>().ok()).unwrap_or(0);
         let liq = kv.get("liq").and_then(|s| s.parse::<u128>().ok()).unwrap_or(1_000_000_000_000);
+        // liquidity per pair / vault (`pliq=` / `vliq=`, in creation order; default `liq`): 2^20 … 2^118
+        let getl128 = |k: &str| -> Vec<u128> {
+            kv.get(k).map(|s| s.split(',').filter_map(|x| x.parse::<u128>().ok()).collect()).unwrap_or_default()
+        };
+        let pliq_in = getl128("pliq");
+        let vliq_in = getl128("vliq");
+        let pool_liq: Vec<u128> = (0..pool_assets.len()).map(|i| pliq_in.get(i).copied().unwrap_or(liq)).collect();
+        let vault_liq: Vec<u128> = (0..vault_assets.len()).map(|i| vliq_in.get(i).copied().unwrap_or(liq)).collect();
 
         let admin = Addr::unchecked("admin");
         let trader = Addr::unchecked("trader");
         let stranger = Addr::unchecked("stranger");
         let dao = Addr::unchecked("dao");
         let users: Vec<Addr> = (0..NUSERS).map(|i| Addr::unchecked(format!("user{i}"))).collect();
-        let big = 10u128.pow(24);
+        // 2^124 of every asset for each of the three funded senders (+ 2^122 for the borrower): the total supply
+        // of an asset stays below 2^127, so the mock bank (u128 balances) never overflows whatever moves where
+        let big = BIG;
         // every sender holds the unrelated denom (stray coins); the stranger also holds the assets of the world
         // (its balances are no observable). The bonders start without any asset of the world.
-        let rich = |_: &Addr| assets.iter().map(|d| coin(big, d.as_str())).chain([coin(big, JUNK)]).collect::<Vec<_>>();
+        let rich = |_: &Addr| assets.iter().map(|d| coin(big, d.as_str())).chain([coin(BIG / 8, JUNK)]).collect::<Vec<_>>();
         let mut bals = vec![(admin.clone(), rich(&admin)), (trader.clone(), rich(&trader)), (stranger.clone(), rich(&stranger))];
+        bals[2].1.extend(BOND_DENOMS.iter().map(|d| coin(10u128.pow(15), *d)));
         for u in &users {
-            bals.push((u.clone(), BOND_DENOMS.iter().map(|d| coin(10u128.pow(15), *d)).chain([coin(big, JUNK)]).collect()));
+            bals.push((u.clone(), BOND_DENOMS.iter().map(|d| coin(10u128.pow(15), *d)).chain([coin(BIG / 16, JUNK)]).collect()));
         }
         let mut app = AppBuilder::new().with_bank(BankKeeper::new()).build(|router, _api, storage| {
             for (a, c) in bals {
@@ -507,6 +902,7 @@ impl World {
             whale_lair::contract::query,
         )));
         let adv_id = app.store_code(adv_contract());
+        let hostile_id = app.store_code(hostile::contract());
 
         let col = app.instantiate_contract(col_id, admin.clone(), &fc::InstantiateMsg {}, &[], "col", None).unwrap();
         let lair = app
@@ -576,8 +972,22 @@ impl World {
             .unwrap();
         }
         let mut pools = vec![];
+        let fac_code = |app: &mut App, id: u64| {
+            app.execute_contract(
+                admin.clone(),
+                fac.clone(),
+                &f::ExecuteMsg::UpdateConfig { owner: None, fee_collector_addr: None, token_code_id: None, pair_code_id: Some(id), trio_code_id: None },
+                &[],
+            )
+            .unwrap();
+        };
         for (i, (a, b)) in pool_assets.iter().enumerate() {
             let infos = [nat(&assets[*a]), nat(&assets[*b])];
+            if pool_hostile[i] {
+                // the factory's owner points `pair_code_id` at the hostile code, creates the pair through the REAL
+                // factory (instantiate + `Pair {}` query in the reply), and restores the code id
+                fac_code(&mut app, hostile_id);
+            }
             app.execute_contract(
                 admin.clone(),
                 fac.clone(),
@@ -597,18 +1007,31 @@ impl World {
             let pi: white_whale_std::pool_network::asset::PairInfo =
                 app.wrap().query_wasm_smart(&fac, &f::QueryMsg::Pair { asset_infos: infos.clone() }).unwrap();
             let pair = Addr::unchecked(pi.contract_addr);
+            if pool_hostile[i] {
+                fac_code(&mut app, pair_id);
+                // it pays swaps out of its own pocket
+                let mut f = vec![coin(BIG / 16, assets[*a].as_str()), coin(BIG / 16, assets[*b].as_str())];
+                f.sort_by(|x, y| x.denom.cmp(&y.denom));
+                app.send_tokens(stranger.clone(), pair.clone(), &f).unwrap();
+                pools.push(pair);
+                continue;
+            }
             app.execute_contract(
                 admin.clone(),
                 pair.clone(),
                 &p::ExecuteMsg::ProvideLiquidity {
                     assets: [
-                        Asset { info: infos[0].clone(), amount: liq.into() },
-                        Asset { info: infos[1].clone(), amount: liq.into() },
+                        Asset { info: infos[0].clone(), amount: pool_liq[i].into() },
+                        Asset { info: infos[1].clone(), amount: pool_liq[i].into() },
                     ],
                     slippage_tolerance: None,
                     receiver: None,
                 },
-                &[coin(liq, assets[*a].as_str()), coin(liq, assets[*b].as_str())],
+                &{
+                    let mut f = vec![coin(pool_liq[i], assets[*a].as_str()), coin(pool_liq[i], assets[*b].as_str())];
+                    f.sort_by(|x, y| x.denom.cmp(&y.denom));
+                    f
+                },
             )
             .unwrap();
             pools.push(pair);
@@ -639,7 +1062,19 @@ impl World {
             )
             .unwrap();
         let mut vaults = vec![];
+        let vfac_code = |app: &mut App, id: u64| {
+            app.execute_contract(
+                admin.clone(),
+                vfac.clone(),
+                &vf::ExecuteMsg::UpdateConfig { owner: None, fee_collector_addr: None, vault_id: Some(id), token_id: None },
+                &[],
+            )
+            .unwrap();
+        };
         for (i, a) in vault_assets.iter().enumerate() {
+            if vault_hostile[i] {
+                vfac_code(&mut app, hostile_id);
+            }
             app.execute_contract(
                 admin.clone(),
                 vfac.clone(),
@@ -658,11 +1093,16 @@ impl World {
             let va: Option<String> =
                 app.wrap().query_wasm_smart(&vfac, &vf::QueryMsg::Vault { asset_info: nat(&assets[*a]) }).unwrap();
             let va = Addr::unchecked(va.unwrap());
+            if vault_hostile[i] {
+                vfac_code(&mut app, vault_id);
+                vaults.push(va);
+                continue;
+            }
             app.execute_contract(
                 admin.clone(),
                 va.clone(),
-                &v::ExecuteMsg::Deposit { amount: liq.into() },
-                &coins(liq, assets[*a].as_str()),
+                &v::ExecuteMsg::Deposit { amount: vault_liq[i].into() },
+                &coins(vault_liq[i], assets[*a].as_str()),
             )
             .unwrap();
             vaults.push(va);
@@ -684,7 +1124,20 @@ impl World {
         )
         .unwrap();
         let adv = app.instantiate_contract(adv_id, admin.clone(), &Empty {}, &[], "adv", None).unwrap();
-        app.send_tokens(admin.clone(), adv.clone(), &assets.iter().map(|d| coin(10u128.pow(18), d.as_str())).collect::<Vec<_>>())
+        // the hostile contract's helper: bonder `u5`, funded like a bonder (bond denoms + the unrelated denom)
+        let mut users = users;
+        let mut agent = None;
+        if nusers > NUSERS {
+            let ag = app.instantiate_contract(adv_id, admin.clone(), &Empty {}, &[], "agent", None).unwrap();
+            let mut f: Vec<cosmwasm_std::Coin> = BOND_DENOMS.iter().map(|d| coin(10u128.pow(15), *d)).collect();
+            f.push(coin(BIG / 16, JUNK));
+            f.sort_by(|x, y| x.denom.cmp(&y.denom));
+            app.send_tokens(stranger.clone(), ag.clone(), &f).unwrap();
+            users.push(ag.clone());
+            agent = Some(ag);
+        }
+        // the borrower pays the flash-loan fees out of its own pocket: also for loans of 2^118
+        app.send_tokens(trader.clone(), adv.clone(), &assets.iter().map(|d| coin(BIG / 4, d.as_str())).collect::<Vec<_>>())
             .unwrap();
         // the factories' listing order: ascending storage key (pair: the two denoms sorted and
         // concatenated; vault: the denom)
@@ -717,10 +1170,15 @@ impl World {
             vault_assets,
             pool_order,
             vault_order,
+            pool_liq,
+            vault_liq,
+            pool_hostile,
+            vault_hostile,
+            agent,
             expired: BTreeSet::new(),
             rolled: BTreeSet::new(),
             paid: BTreeSet::new(),
-            bond_start: vec![None; NUSERS],
+            bond_start: vec![None; nusers.max(NUSERS)],
             inflows: vec![0; nassets],
             paid_out: vec![0; nassets],
             last: Obs::default(),
@@ -973,6 +1431,81 @@ impl World {
         x
     }
 
+    /// the lair's answers (`id:share atomics | E | P`, comma separated) to the `Weight` queries a `Claim` by `who`
+    /// is going to make: one per epoch the distributor lists as claimable for the address
+    fn shares_for(&self, who: &Addr) -> String {
+        let mut sh = vec![];
+        let cl: Result<fd::ClaimableEpochsResponse, _> =
+            self.app.wrap().query_wasm_smart(&self.dist, &fd::QueryMsg::Claimable { address: who.to_string() });
+        if let Ok(cl) = cl {
+            for e in cl.epochs {
+                let (app, lair) = (&self.app, &self.lair);
+                let a = guarded(|| {
+                    app.wrap().query_wasm_smart::<wl::BondingWeightResponse>(
+                        lair,
+                        &wl::QueryMsg::Weight {
+                            address: who.to_string(),
+                            timestamp: Some(e.start_time),
+                            global_index: Some(e.global_index.clone()),
+                        },
+                    )
+                });
+                sh.push(match a {
+                    Outcome::Ok(r) => format!("{}:{}", e.id, r.share.atomics()),
+                    Outcome::Err(_) => format!("{}:E", e.id),
+                    Outcome::Panic => format!("{}:P", e.id),
+                });
+            }
+        }
+        join(&sh, ",")
+    }
+
+    /// the message of a NESTED op (what the hostile contract's helper sends): contract, message, funds.  Every
+    /// entry point of the distributor / collector / lair that the engine sends as a user-level op.
+    fn msg_of(&self, op: &str, args: &[&str], now: u64, next_id: u64) -> Option<(Addr, Binary, Vec<cosmwasm_std::Coin>)> {
+        let pn = |s: Option<&&str>| s.and_then(|x| x.parse::<u128>().ok());
+        let dcfg = |grace: Option<u64>, asset: Option<AssetInfo>| fd::ExecuteMsg::UpdateConfig {
+            owner: None,
+            bonding_contract_addr: None,
+            fee_collector_addr: None,
+            grace_period: grace.map(Uint64::new),
+            distribution_asset: asset,
+            epoch_config: None,
+        };
+        Some(match op {
+            "newepoch" if args.is_empty() => (self.dist.clone(), to_json_binary(&fd::ExecuteMsg::NewEpoch {}).ok()?, vec![]),
+            "claim" if args.is_empty() => (self.dist.clone(), to_json_binary(&fd::ExecuteMsg::Claim {}).ok()?, vec![]),
+            "fwd" if args.is_empty() => {
+                let epoch = fd::Epoch { id: next_id.into(), start_time: Timestamp::from_nanos(now), ..Default::default() };
+                (
+                    self.col.clone(),
+                    to_json_binary(&fc::ExecuteMsg::ForwardFees { epoch, forward_fees_as: nat(&self.assets[DIST]) }).ok()?,
+                    vec![],
+                )
+            }
+            "collect" => (self.col.clone(), to_json_binary(&fc::ExecuteMsg::CollectFees { collect_fees_for: self.fees_for(args)? }).ok()?, vec![]),
+            "aggregate" => {
+                (self.col.clone(), to_json_binary(&fc::ExecuteMsg::AggregateFees { aggregate_fees_for: self.fees_for(args)? }).ok()?, vec![])
+            }
+            "bond" | "unbond" if args.len() == 2 => {
+                let (d, a) = (pn(args.first())?, pn(args.get(1))?);
+                let denom = BOND_DENOMS[(d as usize) % 2];
+                let asset = Asset { info: nat(denom), amount: a.into() };
+                if op == "bond" {
+                    (self.lair.clone(), to_json_binary(&wl::ExecuteMsg::Bond { asset }).ok()?, coins(a, denom))
+                } else {
+                    (self.lair.clone(), to_json_binary(&wl::ExecuteMsg::Unbond { asset }).ok()?, vec![])
+                }
+            }
+            "grace" if args.len() == 1 => (self.dist.clone(), to_json_binary(&dcfg(Some(pn(args.first())? as u64), None)).ok()?, vec![]),
+            "distasset" if args.len() == 1 => {
+                let ai = pn(args.first())? as usize % self.assets.len();
+                (self.dist.clone(), to_json_binary(&dcfg(None, Some(nat(&self.assets[ai])))).ok()?, vec![])
+            }
+            _ => return None,
+        })
+    }
+
     /// lair `Bonded` view of a user: None = no bonded assets, Some(first_bonded_epoch_id)
     fn lair_view(&self, u: &Addr) -> Outcome<Option<u64>> {
         let app = &self.app;
@@ -1052,6 +1585,25 @@ fn sender_class(sender: &str) -> &'static str {
     }
 }
 
+/// a transaction that ran the collector's aggregation FAILED INSIDE THE ROUTER'S SWAP EXECUTION (the error chain
+/// names the router's `execute_swap_operations`: a pair refused the swap — spread above the collector's 50 % cap,
+/// swaps disabled, arithmetic overflow) or panicked: reserves and pair arithmetic are not part of the model, so
+/// this is recorded (`@xfail=err|panic`) like the router's outputs; the model then fails iff it sends a swap
+fn xfail_of<T>(o: &Outcome<T>, router: &str) -> Option<&'static str> {
+    match o {
+        Outcome::Ok(_) => None,
+        Outcome::Err(e) => {
+            let marker = format!("contract_addr: \"{router}\", msg: {{\"execute_swap_operations\"");
+            if e.contains(&marker) {
+                Some("err")
+            } else {
+                None
+            }
+        }
+        Outcome::Panic => Some("panic"),
+    }
+}
+
 fn out3<T>(o: &Outcome<T>) -> &'static str {
     match o {
         Outcome::Ok(_) => "ok",
@@ -1060,19 +1612,161 @@ fn out3<T>(o: &Outcome<T>) -> &'static str {
     }
 }
 
+/// the error chain of a failed transaction says that it failed INSIDE THE ROUTER'S SWAP EXECUTION OF THE NESTED MESSAGE:
+/// the hostile contract's call of its helper comes before the router's `execute_swap_operations`
+fn failed_in_inner_swap(e: &str, hostile: &str, agent: &str, router: &str) -> bool {
+    let hm = format!("sender: {hostile}");
+    let am = format!("Execute {{ contract_addr: \"{agent}\"");
+    let rm = format!("contract_addr: \"{router}\", msg: {{\"execute_swap_operations\"");
+    let mut from = 0;
+    while let Some(p) = e[from..].find(&hm) {
+        let at = from + p + hm.len();
+        if e[at..].trim_start().starts_with(&am) {
+            return e[at..].contains(&rm);
+        }
+        from = at;
+    }
+    false
+}
+
+/// the observation BETWEEN a nested Claim by bonder `ai` and the rest of its transaction, reconstructed from the
+/// claim's own traces in `post`: every epoch's `claimed` as recorded there, `available` lower by what `claimed` rose,
+/// the distributor's balance lower and the claimer's higher by what the claimer received
+fn synth_claim(pre: &Obs, post: &Obs, ai: usize) -> Obs {
+    let mut mid = pre.clone();
+    for e in mid.eps.iter_mut() {
+        if let Some(e2) = post.ep(e.id) {
+            for (k, c2) in &e2.claimed_l {
+                let dc = c2.saturating_sub(amt_of(&e.claimed_l, *k));
+                for (ka, av) in e.avail_l.iter_mut() {
+                    if ka == k {
+                        *av = av.saturating_sub(dc);
+                    }
+                }
+            }
+            e.claimed_l = e2.claimed_l.clone();
+            e.avail = Amt::of_led(&e.avail_l);
+            e.claimed = Amt::of_led(&e.claimed_l);
+        }
+    }
+    for a in 0..pre.dbala.len() {
+        let g = post.uba[ai][a].saturating_sub(pre.uba[ai][a]);
+        mid.uba[ai][a] = mid.uba[ai][a].saturating_add(g);
+        mid.dbala[a] = mid.dbala[a].saturating_sub(g);
+    }
+    mid.ub[ai] = mid.uba[ai][DIST];
+    mid.dbal = mid.dbala[DIST];
+    mid.cl[ai] = vec![];
+    mid
+}
+
+/// a `reenter` op in flight: the armed hostile contract and the nested op
+struct ReCtx {
+    hostile: Addr,
+    inner_op: String,
+    inner_args: Vec<String>,
+    /// after the transaction: did the hostile contract send its message, and did it go through
+    fired: bool,
+    inner_ok: Option<bool>,
+    /// (caught nested NewEpoch / AggregateFees) a dry run of the same transaction with the nested message sent
+    /// PLAINLY failed inside the nested message's swap execution: the hostile contract only sees the outermost
+    /// error text of what it catches, the dry run shows the whole chain
+    dry_inner_swap_fail: bool,
+}
+
+/// after a transaction that may have run the collector's aggregation: the recorded router outputs / fee accruals of
+/// the outer op (`@outs`, `@acc`) and, in a `reenter` op, of the nested one (`@iouts`, `@iacc`), or why it failed
+/// (`@xfail` / `@ixfail`: inside the router's swap execution, of the outer / the nested op)
+fn record_swaps(w: &World, o: &Outcome<AppResponse>, direct: bool, re: Option<&ReCtx>, rec: &mut Vec<String>, swaps: &mut Vec<SwapEv>, stages: &mut Vec<usize>) {
+    let inner_direct = re.map(|r| r.inner_op != "newepoch").unwrap_or(true);
+    match o {
+        Outcome::Ok(resp) => {
+            let (sw, st) = scan_swaps(w, resp, direct, inner_direct);
+            let pick = |inner: bool| -> (Vec<&SwapEv>, Vec<usize>) {
+                let idx: Vec<usize> = (0..sw.len()).filter(|k| sw[*k].inner == inner).collect();
+                (idx.iter().map(|k| &sw[*k]).collect(), idx.iter().map(|k| st[*k]).collect())
+            };
+            let (osw, ost) = pick(false);
+            let (outs, acc) = outs_and_acc(&osw, &ost);
+            rec.push(format!("@outs={outs}"));
+            rec.push(format!("@acc={acc}"));
+            if re.is_some() {
+                let (isw, ist) = pick(true);
+                let (outs, acc) = outs_and_acc(&isw, &ist);
+                rec.push(format!("@iouts={outs}"));
+                rec.push(format!("@iacc={acc}"));
+                // the outer op's accruals PER SWAP CHAIN (`stage.asset.pair.side.pre:amount`; pre = 1: accrued by a hop
+                // before the hostile pair fired, in the chain in which it fired): inside such a transaction it matters
+                // when a fee accrues
+                let mut hacc: Vec<String> = vec![];
+                let mut k = 0;
+                while k < osw.len() {
+                    let mut end = k;
+                    while end < osw.len() && !osw[end].to_collector {
+                        end += 1;
+                    }
+                    let end = end.min(osw.len() - 1);
+                    let fire_at = (k..=end).find(|j| osw[*j].fires);
+                    for j in k..=end {
+                        if osw[j].pfee > 0 {
+                            let pre = matches!(fire_at, Some(f) if j < f) as u8;
+                            hacc.push(format!("{}.{}.{}.{}.{pre}:{}", ost[k], osw[k].offer, osw[j].pool, osw[j].ask_side, osw[j].pfee));
+                        }
+                    }
+                    k = end + 1;
+                }
+                rec.push(format!("@hacc={}", join(&hacc, ",")));
+            }
+            *swaps = sw;
+            *stages = st;
+        }
+        _ => {
+            rec.push("@outs=-".into());
+            rec.push("@acc=-".into());
+            if re.is_some() {
+                rec.push("@iouts=-".into());
+                rec.push("@iacc=-".into());
+                rec.push("@hacc=-".into());
+            }
+            if let Some(x) = xfail_of(o, w.router.as_str()) {
+                // inside the nested message (the chain names the helper contract before the router)?
+                let in_inner = match (o, w.agent.as_ref(), re) {
+                    (Outcome::Err(e), Some(ag), Some(r)) => failed_in_inner_swap(e, r.hostile.as_str(), ag.as_str(), w.router.as_str()),
+                    _ => false,
+                };
+                if in_inner {
+                    rec.push(format!("@ixfail={x}"));
+                } else {
+                    rec.push(format!("@xfail={x}"));
+                    if re.is_some() && x == "panic" {
+                        rec.push("@ixfail=panic".into());
+                    }
+                }
+            }
+        }
+    }
+}
+
 /// swaps in the events of a transaction that ran the collector's aggregation. `direct` = a directly
 /// sent AggregateFees (one pass, stage 0); otherwise a NewEpoch, where the collector executes
 /// 1 ForwardFees, 2-3 CollectFees, 4 AggregateFees(vaults), 5 AggregateFees(pools).
-fn scan_swaps(w: &World, resp: &AppResponse, direct: bool) -> (Vec<SwapEv>, Vec<usize>) {
+fn scan_swaps(w: &World, resp: &AppResponse, direct: bool, inner_direct: bool) -> (Vec<SwapEv>, Vec<usize>) {
     let mut swaps = vec![];
     let mut stages = vec![];
-    let mut col_exec = 0usize;
+    // the events between a hostile contract's `hostile=fire` and `hostile=inner_done` belong to its nested message
+    let mut inner = false;
+    let mut col_exec_of = [0usize; 2];
     for ev in &resp.events {
         let get = |k: &str| ev.attributes.iter().find(|a| a.key == k).map(|a| a.value.clone());
         let ca = get("_contract_addr").unwrap_or_default();
-        if ev.ty == "execute" && ca == w.col.as_str() {
-            col_exec += 1;
+        if get("hostile").as_deref() == Some("inner_done") {
+            inner = false;
         }
+        let (direct, col_exec) = if inner { (inner_direct, &mut col_exec_of[1]) } else { (direct, &mut col_exec_of[0]) };
+        if ev.ty == "execute" && ca == w.col.as_str() {
+            *col_exec += 1;
+        }
+        let col_exec = *col_exec;
         if ev.ty == "wasm" && get("action").as_deref() == Some("swap") {
             if let Some(pi) = w.pools.iter().position(|pa| pa.as_str() == ca) {
                 let ask = get("ask_asset").unwrap_or_default();
@@ -1086,9 +1780,14 @@ fn scan_swaps(w: &World, resp: &AppResponse, direct: bool) -> (Vec<SwapEv>, Vec<
                     offer_amt: get("offer_amount").and_then(|x| x.parse().ok()).unwrap_or(0),
                     ret: get("return_amount").and_then(|x| x.parse().ok()).unwrap_or(0),
                     pfee: get("protocol_fee_amount").and_then(|x| x.parse().ok()).unwrap_or(0),
+                    inner,
+                    fires: get("hostile").as_deref() == Some("fire"),
                 });
                 stages.push(if direct || col_exec <= 4 { 0 } else { 1 });
             }
+        }
+        if get("hostile").as_deref() == Some("fire") {
+            inner = true;
         }
     }
     (swaps, stages)
@@ -1096,7 +1795,7 @@ fn scan_swaps(w: &World, resp: &AppResponse, direct: bool) -> (Vec<SwapEv>, Vec<
 
 /// the `@outs` (`stage.asset:router output`, one per swap chain that paid the collector) and `@acc`
 /// (`pool.side:protocol fee accrued by the aggregation swaps`) values of a transaction's swaps
-fn outs_and_acc(swaps: &[SwapEv], stages: &[usize]) -> (String, String) {
+fn outs_and_acc(swaps: &[&SwapEv], stages: &[usize]) -> (String, String) {
     let mut outs = vec![];
     let mut acc: BTreeMap<(usize, usize), u128> = BTreeMap::new();
     let mut chain_start: Option<usize> = None;
@@ -1123,6 +1822,10 @@ struct SwapEv {
     offer_amt: u128,
     ret: u128,
     pfee: u128,
+    /// part of the nested message of a hostile contract
+    inner: bool,
+    /// the swap of the hostile pair during which it sent its nested message
+    fires: bool,
 }
 
 #[derive(Default)]
@@ -1153,6 +1856,10 @@ struct Gen {
     switch_rounds: Vec<u64>,
     /// the scripted direct collection with coins attached (two pairs with collectable fees) has been generated
     stray_scen_done: bool,
+    /// last round in which the collector was handed a WIDE amount of the distribution asset right before NewEpoch
+    pre_gift_round: u64,
+    /// last round in which NewEpoch was sent with the hostile contract armed
+    reenter_round: u64,
 }
 
 impl Feeflow {
@@ -1167,6 +1874,89 @@ impl Feeflow {
         let w = self.w.as_mut().unwrap();
         let Some(sa) = w.addr_of(sender) else { return ("bad-op".into(), vec![]) };
         let uidx = w.users.iter().position(|u| *u == sa);
+        // ---- `reenter <trig> <plain|catch> <inner op> <args…> -- <outer op> <args…> [+coins]`: the hostile pair /
+        // vault named by `trig` (`p<k>` / `v<k>` = its CollectProtocolFees, `s<k>` = its Swap) is ARMED with the inner
+        // message (sent by its helper, bonder u5), then the outer op runs as usual and is judged below
+        let mut re: Option<ReCtx> = None;
+        let mut rec: Vec<String> = vec![];
+        let (op, args_owned): (&str, Vec<&str>) = if op == "reenter" {
+            let Some(sep) = args_all.iter().position(|a| *a == "--") else { return ("bad-op".into(), vec![]) };
+            if sep < 3 || sep + 1 >= args_all.len() {
+                return ("bad-op".into(), vec![]);
+            }
+            let (trig, mode, iop, iargs) = (args_all[0], args_all[1], args_all[2], &args_all[3..sep]);
+            let (oop, oargs) = (args_all[sep + 1], args_all[sep + 2..].to_vec());
+            let k = trig[1..].parse::<usize>().ok();
+            let hostile = match (trig.chars().next(), k) {
+                (Some('p'), Some(k)) | (Some('s'), Some(k)) if w.pool_hostile.get(k) == Some(&true) => w.pools[k].clone(),
+                (Some('v'), Some(k)) if w.vault_hostile.get(k) == Some(&true) => w.vaults[k].clone(),
+                _ => return ("bad-op".into(), vec![]),
+            };
+            let (Some(agent), true) = (w.agent.clone(), matches!(mode, "plain" | "catch")) else { return ("bad-op".into(), vec![]) };
+            if iop == "reenter" || oop == "reenter" || iargs.iter().any(|a| a.starts_with('+')) {
+                return ("bad-op".into(), vec![]);
+            }
+            let now = w.app.block_info().time.nanos();
+            let next_id = w.last.eps.first().map(|e| e.id).unwrap_or(0) + 1;
+            let Some((c, bin, funds)) = w.msg_of(iop, iargs, now, next_id) else { return ("bad-op".into(), vec![]) };
+            let inner: CosmosMsg = WasmMsg::Execute { contract_addr: c.to_string(), msg: bin, funds }.into();
+            // answers of contracts outside the model to the nested message, recorded before the transaction (the
+            // lair and the distributor's claimable list do not change before the collector's reply)
+            match iop {
+                "claim" => rec.push(format!("@ish={}", w.shares_for(&agent))),
+                "bond" | "unbond" => {
+                    let pr = AdvMsg::Probe { msgs: vec![inner.clone()] };
+                    let (app, ad, ag) = (&mut w.app, w.admin.clone(), agent.clone());
+                    let r = guarded(|| app.execute_contract(ad, ag, &pr, &[]));
+                    rec.push(format!(
+                        "@ir={}",
+                        match r {
+                            Outcome::Err(e) if e.contains("probe:ok") => "ok",
+                            Outcome::Panic => "panic",
+                            _ => "err",
+                        }
+                    ));
+                }
+                _ => {}
+            }
+            let arm_msg = |catch: bool| {
+                hostile::ExecuteMsg::Arm(hostile::Arm {
+                    trigger: if trig.starts_with('s') { "swap".into() } else { "collect".into() },
+                    agent: agent.to_string(),
+                    msgs: vec![inner.clone()],
+                    catch,
+                })
+            };
+            let mut dry_inner_swap_fail = false;
+            if mode == "catch" && matches!(iop, "newepoch" | "aggregate") {
+                let plain_args: Vec<&str> = oargs.iter().copied().filter(|a| !a.starts_with('+')).collect();
+                if let Some((c, bin, funds)) = w.msg_of(oop, &plain_args, now, next_id) {
+                    w.app.execute_contract(w.admin.clone(), hostile.clone(), &arm_msg(false), &[]).unwrap();
+                    let outer: CosmosMsg = WasmMsg::Execute { contract_addr: c.to_string(), msg: bin, funds }.into();
+                    let pr = AdvMsg::DryRun { msgs: vec![outer] };
+                    let (app, ad, ag) = (&mut w.app, w.admin.clone(), agent.clone());
+                    if let Outcome::Err(e) = guarded(|| app.execute_contract(ad, ag, &pr, &[])) {
+                        if std::env::var("FEEFLOW_DEBUG").is_ok() {
+                            eprintln!("DRY RUN: {e}");
+                        }
+                        dry_inner_swap_fail = failed_in_inner_swap(&e, hostile.as_str(), agent.as_str(), w.router.as_str());
+                    }
+                }
+            }
+            w.app.execute_contract(w.admin.clone(), hostile.clone(), &arm_msg(mode == "catch"), &[]).unwrap();
+            re = Some(ReCtx {
+                hostile,
+                inner_op: iop.to_string(),
+                inner_args: iargs.iter().map(|x| x.to_string()).collect(),
+                fired: false,
+                inner_ok: None,
+                dry_inner_swap_fail,
+            });
+            (oop, oargs)
+        } else {
+            (op, args_all.to_vec())
+        };
+        let args_all: &[&str] = &args_owned;
         // ---- trailing stray-coin tokens `+<asset idx>:<amount>` | `+j:<amount>`: coins attached to the message
         let ncoin = args_all.iter().rev().take_while(|a| a.starts_with('+')).count();
         let (args, coin_toks) = args_all.split_at(args_all.len() - ncoin);
@@ -1210,59 +2000,32 @@ impl Feeflow {
         let xpre = if matches!(op, "collect" | "aggregate" | "newepoch") { Some(w.extra()) } else { None };
         let now = w.app.block_info().time.nanos();
         let pre = w.last.clone();
-        let mut rec: Vec<String> = vec![];
         let mut swaps: Vec<SwapEv> = vec![];
         let mut stage_of_swap: Vec<usize> = vec![];
         // the pairs / vaults a direct `vfac` / `pfac` target names: the factory's page, asked before the op
         let mut page: (Vec<bool>, Vec<bool>) = (vec![], vec![]);
         let pn = |s: Option<&&str>| s.and_then(|x| x.parse::<u128>().ok());
+        let (agent_addr, admin_addr) = (w.agent.clone(), w.admin.clone());
         let exec = |app: &mut App, s: &Addr, c: &Addr, m: &dyn erased::Msg, funds: &[cosmwasm_std::Coin]| -> Outcome<AppResponse> {
             let bin = m.bin();
-            guarded(|| app.execute(s.clone(), WasmMsg::Execute { contract_addr: c.to_string(), msg: bin, funds: funds.to_vec() }.into()))
+            let msg: CosmosMsg = WasmMsg::Execute { contract_addr: c.to_string(), msg: bin, funds: funds.to_vec() }.into();
+            if agent_addr.as_ref() == Some(s) {
+                // bonder u5 is a contract: it sends what it is told to, from its own address and balance
+                let run = to_json_binary(&AdvMsg::Run { msgs: vec![msg] }).unwrap();
+                let (ad, ag) = (admin_addr.clone(), s.clone());
+                return guarded(|| app.execute(ad, WasmMsg::Execute { contract_addr: ag.to_string(), msg: run, funds: vec![] }.into()));
+            }
+            guarded(|| app.execute(s.clone(), msg))
         };
         let outcome: Outcome<AppResponse> = match op {
             "newepoch" => {
                 let o = exec(&mut w.app, &sa, &w.dist.clone(), &fd::ExecuteMsg::NewEpoch {}, xf);
-                if let Outcome::Ok(resp) = &o {
-                    // recorded router outputs / fee accruals, from the transaction's events
-                    let (sw, st) = scan_swaps(w, resp, false);
-                    swaps = sw;
-                    stage_of_swap = st;
-                    let (outs, acc) = outs_and_acc(&swaps, &stage_of_swap);
-                    rec.push(format!("@outs={outs}"));
-                    rec.push(format!("@acc={acc}"));
-                } else {
-                    rec.push("@outs=-".into());
-                    rec.push("@acc=-".into());
-                }
+                record_swaps(w, &o, false, re.as_ref(), &mut rec, &mut swaps, &mut stage_of_swap);
                 o
             }
             "claim" => {
                 // the lair's answers for exactly the queries `claim` is going to make
-                let mut sh = vec![];
-                let cl: Result<fd::ClaimableEpochsResponse, _> =
-                    w.app.wrap().query_wasm_smart(&w.dist, &fd::QueryMsg::Claimable { address: sa.to_string() });
-                if let Ok(cl) = cl {
-                    for e in cl.epochs {
-                        let (app, lair) = (&w.app, &w.lair);
-                        let a = guarded(|| {
-                            app.wrap().query_wasm_smart::<wl::BondingWeightResponse>(
-                                lair,
-                                &wl::QueryMsg::Weight {
-                                    address: sa.to_string(),
-                                    timestamp: Some(e.start_time),
-                                    global_index: Some(e.global_index.clone()),
-                                },
-                            )
-                        });
-                        sh.push(match a {
-                            Outcome::Ok(r) => format!("{}:{}", e.id, r.share.atomics()),
-                            Outcome::Err(_) => format!("{}:E", e.id),
-                            Outcome::Panic => format!("{}:P", e.id),
-                        });
-                    }
-                }
-                rec.push(format!("@sh={}", join(&sh, ",")));
+                rec.push(format!("@sh={}", w.shares_for(&sa)));
                 exec(&mut w.app, &sa, &w.dist.clone(), &fd::ExecuteMsg::Claim {}, xf)
             }
             "bond" | "unbond" => {
@@ -1508,23 +2271,72 @@ impl Feeflow {
                 } else {
                     exec(&mut w.app, &sa, &w.col.clone(), &fc::ExecuteMsg::AggregateFees { aggregate_fees_for: ff }, xf)
                 };
-                if op == "aggregate" {
-                    if let Outcome::Ok(resp) = &o {
-                        let (sw, st) = scan_swaps(w, resp, true);
-                        swaps = sw;
-                        stage_of_swap = st;
-                        let (outs, acc) = outs_and_acc(&swaps, &stage_of_swap);
-                        rec.push(format!("@outs={outs}"));
-                        rec.push(format!("@acc={acc}"));
-                    } else {
-                        rec.push("@outs=-".into());
-                        rec.push("@acc=-".into());
-                    }
+                if op == "aggregate" || re.is_some() {
+                    record_swaps(w, &o, true, re.as_ref(), &mut rec, &mut swaps, &mut stage_of_swap);
                 }
                 o
             }
             _ => return ("bad-op".into(), vec![]),
         };
+        // ---- a `reenter` op: what became of the hostile contract's message; disarm it
+        let mut fired_tok = String::new();
+        if let Some(r) = re.as_mut() {
+            let o_ok = matches!(outcome, Outcome::Ok(_));
+            if o_ok {
+                let rep: hostile::Report = w.app.wrap().query_wasm_smart(&r.hostile, &hostile::QueryMsg::Report {}).unwrap_or_default();
+                r.fired = rep.fired;
+                r.inner_ok = if rep.fired { Some(rep.inner_ok.unwrap_or(true)) } else { None };
+                if rep.fired && rep.inner_ok == Some(false) {
+                    if std::env::var("FEEFLOW_DEBUG").is_ok() {
+                        eprintln!("INNER ERR {}: {}", r.inner_op, rep.inner_err);
+                    }
+                }
+            }
+            // the nested message is refused inside the router's swap execution (seen in the dry run of the same
+            // transaction with the message sent plainly): outside the model, like `@xfail` — also when the outer
+            // transaction then fails on its own
+            if r.dry_inner_swap_fail && !rec.iter().any(|t| t.starts_with("@ixfail=")) {
+                rec.push("@ixfail=err".into());
+            }
+            let _ = w.app.execute_contract(w.admin.clone(), r.hostile.clone(), &hostile::ExecuteMsg::Disarm {}, &[]);
+            if matches!(r.inner_op.as_str(), "bond" | "unbond") {
+                let ag = w.agent.clone().unwrap();
+                let view = w.lair_view(&ag);
+                rec.push(match &view {
+                    Outcome::Ok(Some(fb)) => format!("@iv={fb}"),
+                    _ => "@iv=-".into(),
+                });
+                if o_ok && r.fired && r.inner_ok == Some(true) {
+                    let ai = w.users.len() - 1;
+                    match view {
+                        Outcome::Ok(Some(_)) => {
+                            if w.bond_start[ai].is_none() {
+                                w.bond_start[ai] = Some(now);
+                            }
+                        }
+                        _ => w.bond_start[ai] = None,
+                    }
+                }
+            }
+            fired_tok = format!(
+                " fired={}",
+                if !o_ok {
+                    "-"
+                } else if !r.fired {
+                    "0"
+                } else if r.inner_ok == Some(true) {
+                    "1"
+                } else {
+                    "2"
+                }
+            );
+            mon.stat(&format!(
+                "reenter_{}_in_{op}_{}_{}",
+                r.inner_op,
+                out3(&outcome),
+                if !o_ok { "reverted" } else if !r.fired { "not_triggered" } else if r.inner_ok == Some(true) { "inner_ok" } else { "inner_refused_caught" }
+            ));
+        }
         let post = w.observe();
         let xpost = xpre.as_ref().map(|_| w.extra());
         let o3 = out3(&outcome);
@@ -1553,12 +2365,120 @@ impl Feeflow {
                 eprintln!("ERR {op} {sender}: {e}");
             }
         }
-        Self::monitors(w, mon, &pre, &post, sender, uidx, op, args, o3, &swaps, &stage_of_swap, &page);
+        // ---- judging.  A transaction in which the hostile contract's message WENT THROUGH is judged as the sequence of
+        // plain operations it amounts to: a nested Claim = the claim, then the outer op (the state in between is
+        // reconstructed from the claim's own traces: what each epoch records as claimed, what the helper received);
+        // a nested NewEpoch inside a collection / aggregation = a NewEpoch; a nested collection / aggregation inside a
+        // NewEpoch = a NewEpoch (`composite`: the order of collection and swaps differs from the plain pipeline's, the
+        // exact per-stage bookkeeping is replaced by `conservation_across_transaction`); anything else = the generic
+        // ledger monitors.  A refused (caught) or untriggered nested message must leave NO trace: plain judging.
+        let went_through = re.as_ref().map(|r| r.fired && r.inner_ok == Some(true)).unwrap_or(false);
+        let no_page: (Vec<bool>, Vec<bool>) = (vec![], vec![]);
+        if !went_through {
+            Self::monitors(w, mon, &pre, &post, sender, uidx, op, args, o3, &swaps, &stage_of_swap, &page, false);
+            if o3 == "ok" {
+                Self::monitor_stray(w, mon, &pre, &post, sender, op, args_all, &stray, &swaps, xpre.as_ref(), xpost.as_ref(), false);
+            }
+        } else {
+            let r = re.as_ref().unwrap();
+            let ai = w.users.len() - 1;
+            let iargs: Vec<&str> = r.inner_args.iter().map(|x| x.as_str()).collect();
+            match r.inner_op.as_str() {
+                "claim" => {
+                    let mid = synth_claim(&pre, &post, ai);
+                    Self::monitors(w, mon, &pre, &mid, "u5", Some(ai), "claim", &[], "ok", &[], &[], &no_page, false);
+                    Self::monitors(w, mon, &mid, &post, sender, uidx, op, args, o3, &swaps, &stage_of_swap, &page, false);
+                    Self::monitor_stray(w, mon, &mid, &post, sender, op, args_all, &stray, &swaps, xpre.as_ref(), xpost.as_ref(), false);
+                }
+                "bond" | "unbond" => {
+                    Self::monitors(w, mon, &pre, &post, sender, uidx, op, args, o3, &swaps, &stage_of_swap, &page, false);
+                    Self::monitor_stray(w, mon, &pre, &post, sender, op, args_all, &stray, &swaps, xpre.as_ref(), xpost.as_ref(), false);
+                }
+                "newepoch" => {
+                    // on the unchanged code a NewEpoch nested into a NewEpoch never goes through (the outer reply
+                    // finds TMP_EPOCH consumed and the transaction reverts): if it did, the ledgers are judged as
+                    // ONE NewEpoch — exactly one new epoch, only the expiring epoch emptied, total = inflow + rollover
+                    Self::monitors(w, mon, &pre, &post, sender, uidx, "newepoch", &[], o3, &swaps, &stage_of_swap, &no_page, op != "newepoch");
+                    Self::monitor_stray(w, mon, &pre, &post, sender, "newepoch", args_all, &stray, &swaps, xpre.as_ref(), xpost.as_ref(), true);
+                }
+                "collect" | "aggregate" if op == "newepoch" => {
+                    Self::monitors(w, mon, &pre, &post, sender, uidx, "newepoch", &[], o3, &swaps, &stage_of_swap, &no_page, true);
+                    Self::monitor_stray(w, mon, &pre, &post, sender, "newepoch", args_all, &stray, &swaps, xpre.as_ref(), xpost.as_ref(), true);
+                }
+                "collect" | "aggregate" => {
+                    Self::monitors(w, mon, &pre, &post, sender, uidx, "composite", &[], o3, &swaps, &stage_of_swap, &no_page, true);
+                    Self::monitor_stray(w, mon, &pre, &post, sender, "composite", args_all, &stray, &swaps, xpre.as_ref(), xpost.as_ref(), true);
+                }
+                other => {
+                    // `fwd` / `grace` / `distasset` sent by the helper must have been refused: judged as that op, accepted
+                    Self::monitors(w, mon, &pre, &post, "u5", Some(ai), other, &iargs, "ok", &swaps, &stage_of_swap, &no_page, true);
+                }
+            }
+        }
         if o3 == "ok" {
-            Self::monitor_stray(w, mon, &pre, &post, sender, op, args_all, &stray, &swaps, xpre.as_ref(), xpost.as_ref());
+            if let (Some(x0), Some(x1)) = (xpre.as_ref(), xpost.as_ref()) {
+                Self::monitor_conservation(w, mon, &pre, &post, x0, x1, &swaps, &format!("{op} by {sender} {}", args_all.join(" ")));
+            }
         }
         w.last = post.clone();
-        (format!("{o3} {}", post.line()), rec)
+        (format!("{o3} {}{fired_tok}", post.line()), rec)
+    }
+
+    /// C10 on the REAL bank balances of every transaction that collects / aggregates / creates an epoch (plain or with a
+    /// nested message that went through), per asset: what the collector held (incl. attached coins) + what the pairs and
+    /// vaults paid out of their balances (beyond what the swaps of the transaction explain) + what the router paid in
+    /// = what the collector holds now + what it handed to the router + what the DAO received + what reached the
+    /// distributor (its balance change plus whatever it paid out to claimers in the same transaction).
+    #[allow(clippy::too_many_arguments)]
+    fn monitor_conservation(w: &World, mon: &mut Monitor, pre: &Obs, post: &Obs, x0: &Extra, x1: &Extra, swaps: &[SwapEv], line: &str) {
+        let na = w.assets.len();
+        let mut paid_in = vec![Some(0u128); na]; // by pairs / vaults
+        let mut swapped_in = vec![0u128; na];
+        let mut offered = vec![0u128; na];
+        let add = |slot: &mut Option<u128>, x: Option<u128>| *slot = slot.and_then(|v| x.and_then(|x| v.checked_add(x)));
+        for (i, (a, b)) in w.pool_assets.iter().enumerate() {
+            for (sd, asset, b0, b1) in [(0usize, *a, x0.pool_bal[i].0, x1.pool_bal[i].0), (1usize, *b, x0.pool_bal[i].1, x1.pool_bal[i].1)] {
+                let offer_in: u128 = swaps.iter().filter(|s| s.pool == i && s.ask_side != sd).map(|s| s.offer_amt).fold(0u128, |x, y| x.saturating_add(y));
+                let ret_out: u128 = swaps.iter().filter(|s| s.pool == i && s.ask_side == sd).map(|s| s.ret).fold(0u128, |x, y| x.saturating_add(y));
+                // b1 = b0 + offer_in - ret_out - paid
+                let paid = b0.checked_add(offer_in).and_then(|v| v.checked_sub(ret_out)).and_then(|v| v.checked_sub(b1));
+                add(&mut paid_in[asset], paid);
+            }
+        }
+        for (i, a) in w.vault_assets.iter().enumerate() {
+            add(&mut paid_in[*a], x0.vault_bal[i].checked_sub(x1.vault_bal[i]));
+        }
+        // chains of the outer op and of the nested one separately (a nested message may interrupt an outer chain)
+        for inner in [false, true] {
+            let mut start = true;
+            for sw in swaps.iter().filter(|s| s.inner == inner) {
+                if start && sw.offer < na {
+                    offered[sw.offer] = offered[sw.offer].saturating_add(sw.offer_amt);
+                }
+                start = sw.to_collector;
+                if sw.to_collector {
+                    let (a, b) = w.pool_assets[sw.pool];
+                    let ask = if sw.ask_side == 0 { a } else { b };
+                    swapped_in[ask] = swapped_in[ask].saturating_add(sw.ret);
+                }
+            }
+        }
+        for a in 0..na {
+            let users_gain: u128 = (0..w.users.len()).map(|u| post.uba[u][a].saturating_sub(pre.uba[u][a])).fold(0u128, |x, y| x.saturating_add(y));
+            let lhs = paid_in[a].and_then(|p| pre.cbal[a].checked_add(p)).and_then(|v| v.checked_add(swapped_in[a]));
+            let dao_gain = post.daoa[a].checked_sub(pre.daoa[a]);
+            let to_dist = post.dbala[a].checked_add(users_gain).and_then(|v| v.checked_sub(pre.dbala[a]));
+            let rhs = dao_gain.and_then(|d| to_dist.and_then(|t| post.cbal[a].checked_add(offered[a]).and_then(|v| v.checked_add(d)).and_then(|v| v.checked_add(t))));
+            mon.check(
+                "C10",
+                "conservation_across_transaction",
+                lhs.is_some() && lhs == rhs,
+                || format!(
+                    "{line}: {}: collector {} + paid by pairs / vaults {:?} + router paid in {} != collector now {} + handed to the router {} + DAO {:?} + distributor (incl. payouts) {:?}",
+                    w.assets[a], pre.cbal[a], paid_in[a], swapped_in[a], post.cbal[a], offered[a], dao_gain, to_dist
+                ),
+            );
+        }
     }
 
     #[allow(clippy::too_many_arguments)]
@@ -1575,8 +2495,10 @@ impl Feeflow {
         swaps: &[SwapEv],
         stages: &[usize],
         page: &(Vec<bool>, Vec<bool>),
+        composite: bool,
     ) {
         let ok = o3 == "ok";
+        let nu = w.users.len();
         let d = |s: String| move || s;
         // ---- both properties: a failed step leaves every balance (and every ledger) unchanged
         if !ok {
@@ -1712,7 +2634,7 @@ impl Feeflow {
                     d(format!("NewEpoch moved {inflow} {} into the distributor but the distribution asset is {}", den(a), den(pre.dist))),
                 );
                 if a < na {
-                    w.inflows[a] += inflow;
+                    w.inflows[a] = w.inflows[a].saturating_add(inflow);
                 }
             }
             if pre.dist != DIST {
@@ -1730,7 +2652,7 @@ impl Feeflow {
                 })
                 .unwrap_or(true);
             mon.check("C09", "expire_once", others_same && exp_same, d("newepoch modified an epoch other than the expiring one".to_string()));
-            Self::monitor_pipeline(w, mon, pre, post, swaps, stages);
+            Self::monitor_pipeline(w, mon, pre, post, swaps, stages, composite);
         }
         // ---- C09 epoch_ledger: claimed + available = total, for each asset, for every epoch that has not
         // left the grace window; expired epochs are empty in every asset
@@ -1793,7 +2715,7 @@ impl Feeflow {
         // ---- C09 payouts, per asset
         let gain = |i: usize, a: usize| post.uba[i][a].wrapping_sub(pre.uba[i][a]);
         if op == "claim" {
-            let ui = uidx.unwrap_or(NUSERS);
+            let ui = uidx.unwrap_or(nu);
             let mut sound = pre.eps.len() == post.eps.len();
             let mut ledger_drop = vec![0u128; na];
             let mut claimed_rise = vec![0u128; na];
@@ -1830,7 +2752,7 @@ impl Feeflow {
                         d(format!("{sender} paid twice for epoch {}", e.id)),
                     );
                     w.paid.insert((ui, e.id));
-                    let bs = if ui < NUSERS { w.bond_start[ui] } else { None };
+                    let bs = if ui < nu { w.bond_start[ui] } else { None };
                     mon.check(
                         "C09",
                         "not_before_bonding",
@@ -1845,12 +2767,12 @@ impl Feeflow {
                     );
                 }
             }
-            let others = (0..NUSERS).filter(|i| *i != ui).all(|i| (0..na).all(|a| gain(i, a) == 0));
+            let others = (0..nu).filter(|i| *i != ui).all(|i| (0..na).all(|a| gain(i, a) == 0));
             let mut any_gain = false;
             for a in 0..na {
-                let g = if ui < NUSERS { gain(ui, a) } else { 0 };
+                let g = if ui < nu { gain(ui, a) } else { 0 };
                 any_gain |= g > 0;
-                w.paid_out[a] += g;
+                w.paid_out[a] = w.paid_out[a].saturating_add(g);
                 let bal_fell = pre.dbala[a].wrapping_sub(post.dbala[a]);
                 mon.check(
                     "C09",
@@ -1863,14 +2785,14 @@ impl Feeflow {
                 );
             }
             mon.stat(if any_gain { "claim_ok_paid" } else { "claim_ok_zero" });
-            if (0..na).filter(|a| ui < NUSERS && gain(ui, *a) > 0).count() > 1 {
+            if (0..na).filter(|a| ui < nu && gain(ui, *a) > 0).count() > 1 {
                 mon.stat("claim_paid_in_several_assets");
             }
         } else {
             mon.check(
                 "C09",
                 "payout_eq_ledger_delta",
-                (0..NUSERS).all(|i| (0..na).all(|a| gain(i, a) == 0)),
+                (0..nu).all(|i| (0..na).all(|a| gain(i, a) == 0)),
                 d(format!("{op} changed a bonder's balance: {:?} -> {:?}", pre.uba, post.uba)),
             );
             if op != "newepoch" {
@@ -1891,13 +2813,13 @@ impl Feeflow {
         // ever drops out of every ledger (expiry only MOVES it to the new epoch)
         for a in 0..na {
             let (av, po, inn) = (post.sum_avail(a), w.paid_out[a], w.inflows[a]);
-            if av + po != inn {
+            if av.checked_add(po) != Some(inn) {
                 // name the epoch whose funds vanished: the one that expired in this step, if any
                 let culprit = expiring
                     .and_then(|x| pre.ep(x))
                     .map(|e| format!("; epoch {} left the grace window holding {} {} unclaimed", e.id, amt_of(&e.avail_l, a), den(a)))
                     .unwrap_or_default();
-                let lost = inn.saturating_sub(av + po);
+                let lost = inn.saturating_sub(av.saturating_add(po));
                 let what = format!(
                     "{}: sum of available over all epochs {av} + paid out {po} != transferred in {inn} ({lost} {} belong to no epoch){culprit}",
                     den(a),
@@ -1906,14 +2828,14 @@ impl Feeflow {
                 mon.check("C09", "rollover_conserves_per_asset", false, d(what.clone()));
                 mon.check("C10", "rollover_conserves_per_asset", false, d(what));
                 // report once per history, then re-base so that later steps are judged on their own
-                w.inflows[a] = av + po;
+                w.inflows[a] = av.saturating_add(po);
             } else {
                 mon.check("C09", "rollover_conserves_per_asset", true, || String::new());
                 mon.check("C10", "rollover_conserves_per_asset", true, || String::new());
             }
         }
         // ---- C09 not_before_bonding on the Claimable query: no listed epoch started before the address bonded
-        for ui in 0..NUSERS {
+        for ui in 0..nu {
             if let Some(bs) = w.bond_start[ui] {
                 for id in &post.cl[ui] {
                     let st = post.ep(*id).map(|e| e.start).unwrap_or(0);
@@ -1946,6 +2868,7 @@ impl Feeflow {
         swaps: &[SwapEv],
         xpre: Option<&Extra>,
         xpost: Option<&Extra>,
+        composite: bool,
     ) {
         let line = format!("{op} by {sender} {}", args_all.join(" "));
         let both = |mon: &mut Monitor, name: &str, ok: bool, what: String| {
@@ -1994,7 +2917,7 @@ impl Feeflow {
                 let accrued: u128 = swaps.iter().filter(|s| s.pool == i && s.ask_side == sd).map(|s| s.pfee).sum();
                 // what the pair paid out of its pending ledger
                 let paid = (p0 + accrued).wrapping_sub(p1);
-                let exact = p1 <= p0 + accrued && (paid == 0 || (paid == p0 && p0 > THRESH && op != "aggregate"));
+                let exact = p1 <= p0 + accrued && (composite || paid == 0 || (paid == p0 && p0 > THRESH && op != "aggregate"));
                 both(
                     mon,
                     "collect_moves_exactly_pending",
@@ -2004,7 +2927,7 @@ impl Feeflow {
                 both(
                     mon,
                     "collect_moves_exactly_pending",
-                    b1 + paid.min(p0) + ret_out == b0 + offer_in,
+                    b1.saturating_add(if composite { paid.min(p0.saturating_add(accrued)) } else { paid.min(p0) }).saturating_add(ret_out) == b0.saturating_add(offer_in),
                     format!("{line}: pair {i} side {sd} ({}): bank balance {b0} -> {b1} but it paid {paid} pending fees, swaps brought {offer_in} and took {ret_out}", w.assets[asset]),
                 );
                 both(
@@ -2046,6 +2969,7 @@ impl Feeflow {
         for a in 0..na {
             let have = pre.cbal[a] + collected[a];
             let ok = match op {
+                _ if composite => true, // judged by conservation_across_transaction
                 "collect" => post.cbal[a] == have,
                 _ if a == dist => true, // judged by pipeline_conservation / direct_aggregate_only_converts
                 _ => post.cbal[a] == have || post.cbal[a] == 0,
@@ -2251,7 +3175,7 @@ impl Feeflow {
     }
 
     /// C10 on a successful NewEpoch: collection, aggregation, take rate, transfer
-    fn monitor_pipeline(w: &World, mon: &mut Monitor, pre: &Obs, post: &Obs, swaps: &[SwapEv], stages: &[usize]) {
+    fn monitor_pipeline(w: &World, mon: &mut Monitor, pre: &Obs, post: &Obs, swaps: &[SwapEv], stages: &[usize], composite: bool) {
         let d = |s: String| move || s;
         // the asset the collector aggregates into and forwards: the distributor's CURRENT distribution asset
         let dist = pre.dist;
@@ -2301,7 +3225,7 @@ impl Feeflow {
                     mon.check(
                         "C10",
                         "pending_collected",
-                        after == accrued,
+                        if composite { after <= accrued } else { after == accrued },
                         d(format!(
                             "pool {i} ({}/{}, registered, entry {} of {} in the pool factory's listing) side {sd}: collectable pending {before} -> {after} after NewEpoch (accrued by aggregation {accrued})",
                             w.assets[*a],
@@ -2313,7 +3237,13 @@ impl Feeflow {
                     collected[asset] += before;
                     mon.stat("pool_pending_gt_1000");
                 } else {
-                    mon.check("C10", "pending_collected", after == before + accrued, d(format!("pool {i} side {sd}: uncollectable pending {before} -> {after} (accrued {accrued})")));
+                    // (composite: a nested collection may come after aggregation swaps have pushed an entry over the threshold)
+                    mon.check(
+                        "C10",
+                        "pending_collected",
+                        if composite { after <= before.saturating_add(accrued) } else { after == before + accrued },
+                        d(format!("pool {i} side {sd}: uncollectable pending {before} -> {after} (accrued {accrued})")),
+                    );
                     mon.stat(if before == 0 {
                         "pool_pending_zero"
                     } else if !pre.reg[i] {
@@ -2336,6 +3266,11 @@ impl Feeflow {
             let have = pre.cbal[i] + collected[i];
             let touched = post.cbal[i] != have;
             let can = have > THRESH && pre.rt[i] != 0;
+            if composite {
+                // a nested collection / aggregation changes WHEN an asset is collected and swapped (it may be swapped in
+                // two parts, or collected after its swap): judged by `conservation_across_transaction`
+                continue;
+            }
             mon.check(
                 "C10",
                 "untouched_or_swapped",
@@ -2368,7 +3303,7 @@ impl Feeflow {
         // route whose pair no swap of this transaction went through, the pair is still in the state
         // it had when the collector simulated, so the simulation can be repeated now.
         for i in 0..w.assets.len() {
-            if i == dist {
+            if i == dist || composite {
                 continue;
             }
             let have = pre.cbal[i] + collected[i];
@@ -2405,15 +3340,17 @@ impl Feeflow {
             }
         }
         let _ = stages;
-        mon.check("C10", "untouched_or_swapped", chains == n_swapped, d(format!("{n_swapped} assets left the collector but {chains} router swaps paid it")));
+        mon.check("C10", "untouched_or_swapped", composite || chains == n_swapped, d(format!("{n_swapped} assets left the collector but {chains} router swaps paid it")));
         // take rate and transfer
         let dao_got = post.daoa[dist].wrapping_sub(pre.daoa[dist]);
         let to_dist = post.dbala[dist].wrapping_sub(pre.dbala[dist]);
-        let base = pre.cbal[dist] + collected[dist] + swapped_in;
+        // (composite: what the collector's reply split is what reached the DAO and the distributor; that nothing else
+        // went missing is `conservation_across_transaction`)
+        let base = if composite { dao_got.saturating_add(to_dist) } else { pre.cbal[dist] + collected[dist] + swapped_in };
         mon.check(
             "C10",
             "pipeline_conservation",
-            post.daoa[dist] >= pre.daoa[dist] && post.dbala[dist] >= pre.dbala[dist] && base == dao_got + to_dist && post.cbal[dist] == 0,
+            post.daoa[dist] >= pre.daoa[dist] && post.dbala[dist] >= pre.dbala[dist] && base == dao_got + to_dist && (composite || post.cbal[dist] == 0),
             d(format!(
                 "collector had {} + collected {} + swapped in {swapped_in} = {base} {}; DAO got {dao_got}, distributor got {to_dist}, left {}",
                 pre.cbal[dist], collected[dist], w.assets[dist], post.cbal[dist]
@@ -2534,6 +3471,8 @@ impl Engine for Feeflow {
                 scen_round: u64::MAX,
                 bond_edge_round: u64::MAX,
                 stray_scen_done: false,
+                pre_gift_round: u64::MAX,
+                reenter_round: u64::MAX,
                 switch_rounds: {
                     // 1 history in 4 keeps one distribution asset throughout; the others switch 1 … 3 times
                     let rounds = grace + 2 + extra;
@@ -2573,6 +3512,49 @@ impl Engine for Feeflow {
             };
             // no vault can be created for a token-factory denom (cw20 LP symbol rules)
             let vaults = if dn == 2 { "1,0" } else { vaults };
+            // MAGNITUDES: 1 world in 3 keeps the classic 10^12 of liquidity in every pair / vault; the others get
+            // liquidity per pair / vault anywhere from 2^24 to 2^118 (`many`: 2^112, the owner funds 15 pairs), all
+            // equal and huge, or a mix — fees, balances and distribution amounts then span the whole u128 range the
+            // contracts have to cope with (in-round amounts are chosen relative to the liquidity they meet)
+            let cap = if self.many { 112 } else { 118 };
+            let scale = rng.below(6);
+            let huge = 1u128 << rng.range(96, cap);
+            // (pairs / vaults of one world within a few bits of each other: the fees collected from one pair are
+            // swapped through another, which must be able to take them; scale 5 is the world where it cannot)
+            let mid = rng.range(27, cap - 3);
+            let mut liq_of = |rng: &mut Rng| -> u128 {
+                match scale {
+                    0 | 1 => 1_000_000_000_000,
+                    2 | 3 => (1u128 << (mid + rng.range(0, 6) - 3)) + rng.below(1_000_000) as u128,
+                    4 => huge,
+                    _ => {
+                        if rng.chance(1, 2) {
+                            1_000_000_000_000
+                        } else {
+                            1u128 << rng.range(64, cap)
+                        }
+                    }
+                }
+            };
+            // HOSTILE REGISTERED CONTRACTS (2 worlds in 5): the pair uatom/uusdc (a hop of every two-hop route) and / or
+            // the last vault is the hostile contract, instantiated by the real factory; its helper is bonder u5
+            let hostile_world = rng.chance(2, 5);
+            let (hostile_pool, hostile_vault) = if !hostile_world {
+                (false, false)
+            } else {
+                match rng.below(4) {
+                    0 => (true, false),
+                    1 => (false, true),
+                    _ => (true, true),
+                }
+            };
+            let nusers = if hostile_world { NUSERS + 1 } else { NUSERS };
+            // (the hostile contract's turn comes in LISTING order: the model orders pairs / vaults by asset index, so
+            // these worlds use denoms that ascend in index order — plain ones or three IBC vouchers)
+            let dn = if hostile_world && !matches!(dn, 0 | 5) { *rng.pick(&[0u64, 0, 5]) } else { dn };
+            if hostile_world && rng.chance(3, 4) {
+                self.g.setup.push(format!("u5 bond {} {}", rng.below(2), 1_000 + rng.below(1_000_000)));
+            }
             if self.many {
                 // 9 / 10 / 12 filler assets (indices 3 …), each with a pair against the distribution
                 // asset and a vault, created in shuffled order after the three base pairs / vaults:
@@ -2601,18 +3583,37 @@ impl Engine for Feeflow {
                         self.g.setup.push(format!("admin addroute {a} direct"));
                     }
                 }
+                if hostile_pool {
+                    // a pair of two filler assets: the LAST entry of the pool factory's listing (beyond a default page)
+                    pools.push("3.4h".to_string());
+                    pf.push(10);
+                }
+                if hostile_vault {
+                    let k = 3 + rng.below(vl.len() as u64 - 3) as usize;
+                    vl[k].push('h');
+                }
+                let pliq: Vec<u128> = pools.iter().map(|_| liq_of(rng)).collect();
+                let vliq: Vec<u128> = vl.iter().map(|_| liq_of(rng)).collect();
                 return Some(format!(
-                    "init feeflow grace={grace} genesis={genesis} dur={DAY} pools={} vaults={} dist={DIST} nusers={NUSERS} pf={} vf={} growth={growth} dn={dn}",
+                    "init feeflow grace={grace} genesis={genesis} dur={DAY} pools={} vaults={} dist={DIST} nusers={nusers} pf={} vf={} growth={growth} dn={dn} pliq={} vliq={}",
                     pools.join(","),
                     vl.join(","),
                     join(&pf, ","),
-                    join(&vfs, ",")
+                    join(&vfs, ","),
+                    join(&pliq, ","),
+                    join(&vliq, ",")
                 ));
             }
+            let pliq: Vec<u128> = (0..3).map(|_| liq_of(rng)).collect();
+            let vliq: Vec<u128> = vaults.split(',').map(|_| liq_of(rng)).collect();
+            let vaults = if hostile_vault { format!("{vaults}h") } else { vaults.to_string() };
+            let pools = if hostile_pool { "0.2,1.2,0.1h" } else { "0.2,1.2,0.1" };
             return Some(format!(
-                "init feeflow grace={grace} genesis={genesis} dur={DAY} pools=0.2,1.2,0.1 vaults={vaults} dist={DIST} nusers={NUSERS} pf={} vf={} growth={growth} dn={dn}",
+                "init feeflow grace={grace} genesis={genesis} dur={DAY} pools={pools} vaults={vaults} dist={DIST} nusers={nusers} pf={} vf={} growth={growth} dn={dn} pliq={} vliq={}",
                 join(&pf, ","),
-                join(&vfs, ",")
+                join(&vfs, ","),
+                join(&pliq, ","),
+                join(&vliq, ",")
             ));
         }
         // gen_body yields `<sender> <op> <args…>`; the line is `<op> <height> <time_ns> <sender> <args…>`
@@ -2644,13 +3645,14 @@ impl Feeflow {
         let last = &w.last;
         let na = w.assets.len();
         let amount = |rng: &mut Rng| -> u128 {
-            match rng.below(7) {
+            match rng.below(8) {
                 0 => 1,
                 1 => 999,
                 2 => 1000,
                 3 => 1001,
                 4 => 5000,
-                _ => rng.log_uniform(24),
+                5 => rng.log_uniform(24),
+                _ => wide_amount(rng).min(BIG / 64),
             }
         };
         let junk = format!("+j:{}", amount(rng));
@@ -2681,6 +3683,68 @@ impl Feeflow {
         }
         Some(if kind < 9 { format!("+{a}:{x}") } else { format!("+{a}:{x} {junk}") })
     }
+}
+
+/// `<who> reenter <trig> <plain|catch> <inner op> -- <outer op>`: the trigger fits the outer op (a collection reaches
+/// the hostile pair's / vault's CollectProtocolFees, a pipeline run / an aggregation may also reach the pair's Swap)
+fn gen_reenter(rng: &mut Rng, w: &World, who: &str, outer: &str) -> Option<String> {
+    let hp: Vec<usize> = (0..w.pools.len()).filter(|i| w.pool_hostile[*i]).collect();
+    let hv: Vec<usize> = (0..w.vaults.len()).filter(|i| w.vault_hostile[*i]).collect();
+    let mut trigs: Vec<String> = vec![];
+    let o = outer.split(' ').collect::<Vec<_>>();
+    match (o[0], o.get(1).copied()) {
+        ("newepoch", _) => {
+            trigs.extend(hp.iter().map(|k| format!("p{k}")));
+            trigs.extend(hp.iter().map(|k| format!("p{k}")));
+            trigs.extend(hv.iter().map(|k| format!("v{k}")));
+            trigs.extend(hv.iter().map(|k| format!("v{k}")));
+            trigs.extend(hp.iter().map(|k| format!("s{k}")));
+        }
+        ("collect", Some("pfac")) | ("collect", Some("pool")) => trigs.extend(hp.iter().map(|k| format!("p{k}"))),
+        ("collect", Some("vfac")) | ("collect", Some("vault")) => trigs.extend(hv.iter().map(|k| format!("v{k}"))),
+        ("aggregate", _) => trigs.extend(hp.iter().map(|k| format!("s{k}"))),
+        _ => {}
+    }
+    if trigs.is_empty() {
+        return None;
+    }
+    let trig = rng.pick(&trigs).clone();
+    Some(gen_reenter_with(rng, w, who, outer, &trig))
+}
+
+fn gen_reenter_with(rng: &mut Rng, w: &World, who: &str, outer: &str, trig: &str) -> String {
+    let mode = if rng.chance(1, 2) { "plain" } else { "catch" };
+    let fac = |rng: &mut Rng| if rng.chance(1, 2) { "pfac" } else { "vfac" };
+    let inner = match rng.below(16) {
+        0..=4 => "newepoch".to_string(),
+        5..=7 => "claim".to_string(),
+        8 => format!("collect {}", fac(rng)),
+        9 => format!("collect {} {}", if rng.chance(1, 2) { "pool" } else { "vault" }, rng.below(w.pools.len().min(w.vaults.len()).max(1) as u64)),
+        10 | 11 => format!("aggregate {}", fac(rng)),
+        12 => "fwd".to_string(),
+        13 => format!("bond {} {}", rng.below(2), 1 + rng.below(1_000_000)),
+        14 => format!("unbond {} {}", rng.below(2), 1 + rng.below(1_000)),
+        _ => {
+            if rng.chance(1, 2) {
+                format!("grace {}", rng.range(1, 6))
+            } else {
+                format!("distasset {}", rng.below(3))
+            }
+        }
+    };
+    format!("{who} reenter {trig} {mode} {inner} -- {outer}")
+}
+
+/// an amount relative to the liquidity `l` it meets (a pair's reserve, a vault's deposits): a millionth … the
+/// whole of it, or a WIDE amount capped at twice the liquidity
+fn rel_amount(rng: &mut Rng, l: u128) -> u128 {
+    match rng.below(4) {
+        0 => l / *rng.pick(&[1_000_000u128, 100_000, 1000, 300, 30, 10, 3, 1]),
+        1 => l / 1000 * rng.range(1, 400) as u128,
+        2 => wide_amount(rng).min(l.saturating_mul(2)),
+        _ => rng.log_uniform(120).min(l / 2),
+    }
+    .max(1)
 }
 
 fn gen_rate(rng: &mut Rng) -> u128 {
@@ -2734,6 +3798,16 @@ impl Feeflow {
                 self.g.t += 1_000_000_000;
                 return Some(first);
             }
+            // the collector is handed a WIDE amount of the current distribution asset right before NewEpoch: the take
+            // rate, the transfer and the new epoch's total are then computed on balances anywhere up to 2^120
+            // (around 2^64, 3.4e20, 1e27, 2^100, 2^119)
+            if self.g.pre_gift_round != self.g.round && rng.chance(2, 5) {
+                self.g.pre_gift_round = self.g.round;
+                let a = last.dist.min(w.assets.len() - 1);
+                let have = bal(&w.app, &w.admin, &w.assets[a]);
+                let x = wide_amount(rng).min(have / 2).max(1);
+                return Some(format!("admin gift col {a} {x}"));
+            }
             let next_start = if n_epochs == 0 { self.g.genesis } else { last.eps[0].start + DAY };
             // a bond right at / just after the nominal start of the epoch that has not been created yet
             // (0 ns .. 1 s + 1 ns late): the lair must refuse it once the current epoch has expired,
@@ -2757,6 +3831,20 @@ impl Feeflow {
                 t += DAY; // a missed day: the next NewEpoch catches up immediately
             }
             self.g.t = self.g.t.max(t);
+            // NewEpoch (due now) with the hostile contract armed: once per round, 1 round in 2 of a hostile world; the
+            // round's plain NewEpoch follows (it finds the epoch created, or creates it after a refused attempt)
+            if w.agent.is_some() && self.g.reenter_round != self.g.round && rng.chance(1, 2) {
+                self.g.reenter_round = self.g.round;
+                let who = match rng.below(3) {
+                    0 => "admin".to_string(),
+                    1 => "stranger".to_string(),
+                    _ => format!("u{}", rng.below(NUSERS as u64)),
+                };
+                if let Some(body) = gen_reenter(rng, w, &who, "newepoch") {
+                    // a route through the hostile pair so that its Swap is reached by the aggregation
+                    return Some(body);
+                }
+            }
             self.g.round += 1;
             self.g.left = rng.range(3, 10);
             self.g.phase = 0;
@@ -2805,6 +3893,35 @@ impl Feeflow {
         if !off.is_empty() && rng.chance(1, 3) {
             return Some(format!("admin toggle {} 1", rng.pick(&off)));
         }
+        // an asset sits in the collector beyond what the pools of its route can take (the aggregation swap then
+        // fails on the collector's 50 % spread cap and NewEpoch fails as a whole): sooner or later the owner
+        // removes the route
+        let depth = |i: usize| -> u128 {
+            w.pool_assets.iter().enumerate().filter(|(_, (a, b))| *a == i || *b == i).map(|(k, _)| w.pool_liq[k]).min().unwrap_or(0)
+        };
+        // (what the next pipeline run will hold of asset i: the collector's balance and everything pending)
+        let upcoming = |i: usize| -> u128 {
+            let mut x = last.cbal[i];
+            for (k, (a, b)) in w.pool_assets.iter().enumerate() {
+                if *a == i {
+                    x = x.saturating_add(last.pp[k].0);
+                }
+                if *b == i {
+                    x = x.saturating_add(last.pp[k].1);
+                }
+            }
+            for (k, a) in w.vault_assets.iter().enumerate() {
+                if *a == i {
+                    x = x.saturating_add(last.vp[k]);
+                }
+            }
+            x
+        };
+        for i in 0..na as usize {
+            if i != last.dist && last.rt.get(i).copied().unwrap_or(0) != 0 && upcoming(i) > depth(i) / 3 && rng.chance(1, 2) {
+                return Some(format!("admin rmroute {i} direct {}", last.dist));
+            }
+        }
         if self.many && rng.chance(2, 5) {
             // protocol fees for the pairs / vaults LATE in the factories' listing order (from the 9th
             // entry on; the 11th is the first one beyond a default page), sizes around the thresholds
@@ -2822,15 +3939,22 @@ impl Feeflow {
                         let need = target.saturating_sub(pend).max(1);
                         need * 1000 / *rng.pick(&[1u128, 3, 10, 30])
                     }
-                    _ => rng.log_uniform(30),
+                    _ => {
+                        if rng.chance(1, 2) {
+                            rng.log_uniform(30)
+                        } else {
+                            rel_amount(rng, w.pool_liq[pi])
+                        }
+                    }
                 };
                 return Some(format!("trader swap {pi} {side} {}", amt.max(1)));
             }
             let vi = late(rng, &w.vault_order);
-            let amt = match rng.below(4) {
+            let amt = match rng.below(5) {
                 0 => rng.range(1, 5000) as u128,
                 1 => 100_000,
                 2 => 100_100,
+                3 => rel_amount(rng, w.vault_liq[vi]),
                 _ => rng.log_uniform(30),
             };
             return Some(format!("admin loan {vi} {amt}"));
@@ -2870,6 +3994,43 @@ impl Feeflow {
                 return Some(format!("trader swap 0 0 {}", 2_000_000 + rng.below(1_000_000)));
             }
         }
+        // direct CollectFees / AggregateFees with the hostile contract armed (hostile worlds: about 1 in-round op in 10)
+        if w.agent.is_some() && rng.chance(1, 10) {
+            let who = match rng.below(4) {
+                0 => "admin".to_string(),
+                1 => "stranger".to_string(),
+                2 => "trader".to_string(),
+                _ => format!("u{}", rng.below(NUSERS as u64)),
+            };
+            let hp: Vec<usize> = (0..w.pools.len()).filter(|i| w.pool_hostile[*i]).collect();
+            let hv: Vec<usize> = (0..w.vaults.len()).filter(|i| w.vault_hostile[*i]).collect();
+            // a swap through the hostile pair needs a two-hop route over it and something to swap: prepared first
+            if !hp.is_empty() && last.dist == DIST && !self.many && rng.chance(1, 3) {
+                let a = rng.below(2) as usize; // uatom -> uusdc -> uwhale or uusdc -> uatom -> uwhale
+                self.g.setup.push(gen_reenter_with(rng, w, &who, "aggregate pfac", &format!("s{}", hp[0])));
+                if last.cbal[a] <= 1000 {
+                    self.g.setup.push(format!("admin gift col {a} {}", 1001 + rng.below(100_000)));
+                }
+                return Some(format!("admin addroute {a} twohop"));
+            }
+            let outer = if !hv.is_empty() && (hp.is_empty() || rng.chance(1, 2)) {
+                match rng.below(3) {
+                    0 => format!("collect vault {}", hv[0]),
+                    1 => "collect vfac -".to_string(),
+                    _ => "collect vfac".to_string(),
+                }
+            } else {
+                match rng.below(4) {
+                    0 => format!("collect pool {}", hp[0]),
+                    1 => "collect pfac -".to_string(),
+                    2 => "aggregate pfac".to_string(),
+                    _ => "collect pfac".to_string(),
+                }
+            };
+            if let Some(body) = gen_reenter(rng, w, &who, &outer) {
+                return Some(body);
+            }
+        }
         let u = rng.below(4); // u4 never bonds
         let k = rng.below(100);
         let body = if k < 21 {
@@ -2877,7 +4038,7 @@ impl Feeflow {
             let pi = rng.below(np) as usize;
             let side = rng.below(2) as usize;
             let pend = if side == 0 { last.pp[pi].1 } else { last.pp[pi].0 };
-            let amt = match rng.below(6) {
+            let amt = match rng.below(8) {
                 0 => rng.range(1, 2000) as u128,
                 1 | 2 => {
                     // aim the pending fee at 999 / 1000 / 1001 (price ~ 1, protocol fee = pf permille)
@@ -2886,7 +4047,8 @@ impl Feeflow {
                     need * 1000 / *rng.pick(&[1u128, 3, 10, 30])
                 }
                 3 => rng.log_uniform(34),
-                _ => rng.log_uniform(28),
+                4 => rng.log_uniform(28),
+                _ => rel_amount(rng, w.pool_liq[pi]),
             };
             format!("trader swap {pi} {side} {}", amt.max(1))
         } else if k < 27 {
@@ -2932,17 +4094,18 @@ impl Feeflow {
             }
         } else if k < 38 {
             let vi = rng.below(nv);
-            let amt = match rng.below(5) {
+            let amt = match rng.below(7) {
                 0 => rng.range(1, 5000) as u128,
                 1 => 100_000,
                 2 => 100_100,
                 3 => rng.log_uniform(36),
-                _ => rng.log_uniform(24),
+                4 => rng.log_uniform(24),
+                _ => rel_amount(rng, w.vault_liq.get(vi as usize).copied().unwrap_or(1)),
             };
             format!("admin loan {vi} {amt}")
         } else if k < 58 {
             // claim: mostly somebody with something claimable
-            let cands: Vec<usize> = (0..NUSERS).filter(|i| !last.cl[*i].is_empty()).collect();
+            let cands: Vec<usize> = (0..w.users.len()).filter(|i| !last.cl[*i].is_empty()).collect();
             if !cands.is_empty() && rng.chance(4, 5) {
                 format!("u{} claim", rng.pick(&cands))
             } else if rng.chance(1, 6) {
@@ -2979,11 +4142,22 @@ impl Feeflow {
         } else if k < 81 {
             let tgt = if rng.chance(3, 4) { "col" } else { "dist" };
             let ai = rng.below(na);
-            let amt = match rng.below(5) {
+            let amt = match rng.below(7) {
                 0 => 1000u128.saturating_sub(last.cbal[ai as usize]).max(1),
                 1 => 1001u128.saturating_sub(last.cbal[ai as usize]).max(1),
                 2 => rng.range(1, 999) as u128,
-                _ => rng.log_uniform(32),
+                3 | 4 => rng.log_uniform(32),
+                _ => {
+                    // the whole range; an asset that the pipeline will swap is kept (9 times in 10) within what the
+                    // pools of its route can take, or the aggregation fails on the spread cap
+                    let x = wide_amount(rng).min(bal(&w.app, &w.admin, &w.assets[ai as usize]) / 2).max(1);
+                    let routed = tgt == "col" && ai as usize != last.dist && last.rt.get(ai as usize).copied().unwrap_or(0) != 0;
+                    if routed && !rng.chance(1, 10) {
+                        x.min(depth(ai as usize) / 8).max(1)
+                    } else {
+                        x
+                    }
+                }
             };
             format!("admin gift {tgt} {ai} {amt}")
         } else if k < 87 {
